@@ -66,7 +66,8 @@ Record Lifecycle_state := LcState {
   lc_reid : nat;
   lc_pdisc : nat;
   lc_pt7 : nat;
-  lc_pups : nat;
+  lc_pups : bool;
+  lc_pbehind : nat;
   lc_pclose : bool;
   lc_stopreq : bool;
   lc_gnotif : bool;
@@ -103,106 +104,108 @@ Record Lifecycle_state := LcState {
 }.
 
 Definition set_active (v : bool) (s : Lifecycle_state) : Lifecycle_state :=
-  LcState v (lc_api s) (lc_oeid s) (lc_shutdown s) (lc_rgen s) (lc_cancelled s) (lc_stopping s) (lc_sup s) (lc_st s) (lc_latch s) (lc_spc s) (lc_reid s) (lc_pdisc s) (lc_pt7 s) (lc_pups s) (lc_pclose s) (lc_stopreq s) (lc_gnotif s) (lc_hascur s) (lc_eid s) (lc_etd s) (lc_edone s) (lc_esock s) (lc_elis s) (lc_eup s) (lc_estop1 s) (lc_estop2 s) (lc_ahold s) (lc_gsender s) (lc_grecv s) (lc_gproc s) (lc_gaccept s) (lc_glt s) (lc_gt7 s) (lc_gjoin s) (lc_hasloop s) (lc_lgen s) (lc_lcount s) (lc_lpc s) (lc_lprev s) (lc_lown s) (lc_tailc s) (lc_tailn s) (lc_err s) (lc_reconnects s) (lc_redials s) (lc_ndials s) (lc_npub s).
+  LcState v (lc_api s) (lc_oeid s) (lc_shutdown s) (lc_rgen s) (lc_cancelled s) (lc_stopping s) (lc_sup s) (lc_st s) (lc_latch s) (lc_spc s) (lc_reid s) (lc_pdisc s) (lc_pt7 s) (lc_pups s) (lc_pbehind s) (lc_pclose s) (lc_stopreq s) (lc_gnotif s) (lc_hascur s) (lc_eid s) (lc_etd s) (lc_edone s) (lc_esock s) (lc_elis s) (lc_eup s) (lc_estop1 s) (lc_estop2 s) (lc_ahold s) (lc_gsender s) (lc_grecv s) (lc_gproc s) (lc_gaccept s) (lc_glt s) (lc_gt7 s) (lc_gjoin s) (lc_hasloop s) (lc_lgen s) (lc_lcount s) (lc_lpc s) (lc_lprev s) (lc_lown s) (lc_tailc s) (lc_tailn s) (lc_err s) (lc_reconnects s) (lc_redials s) (lc_ndials s) (lc_npub s).
 Definition set_api (v : lc_api_pc) (s : Lifecycle_state) : Lifecycle_state :=
-  LcState (lc_active s) v (lc_oeid s) (lc_shutdown s) (lc_rgen s) (lc_cancelled s) (lc_stopping s) (lc_sup s) (lc_st s) (lc_latch s) (lc_spc s) (lc_reid s) (lc_pdisc s) (lc_pt7 s) (lc_pups s) (lc_pclose s) (lc_stopreq s) (lc_gnotif s) (lc_hascur s) (lc_eid s) (lc_etd s) (lc_edone s) (lc_esock s) (lc_elis s) (lc_eup s) (lc_estop1 s) (lc_estop2 s) (lc_ahold s) (lc_gsender s) (lc_grecv s) (lc_gproc s) (lc_gaccept s) (lc_glt s) (lc_gt7 s) (lc_gjoin s) (lc_hasloop s) (lc_lgen s) (lc_lcount s) (lc_lpc s) (lc_lprev s) (lc_lown s) (lc_tailc s) (lc_tailn s) (lc_err s) (lc_reconnects s) (lc_redials s) (lc_ndials s) (lc_npub s).
+  LcState (lc_active s) v (lc_oeid s) (lc_shutdown s) (lc_rgen s) (lc_cancelled s) (lc_stopping s) (lc_sup s) (lc_st s) (lc_latch s) (lc_spc s) (lc_reid s) (lc_pdisc s) (lc_pt7 s) (lc_pups s) (lc_pbehind s) (lc_pclose s) (lc_stopreq s) (lc_gnotif s) (lc_hascur s) (lc_eid s) (lc_etd s) (lc_edone s) (lc_esock s) (lc_elis s) (lc_eup s) (lc_estop1 s) (lc_estop2 s) (lc_ahold s) (lc_gsender s) (lc_grecv s) (lc_gproc s) (lc_gaccept s) (lc_glt s) (lc_gt7 s) (lc_gjoin s) (lc_hasloop s) (lc_lgen s) (lc_lcount s) (lc_lpc s) (lc_lprev s) (lc_lown s) (lc_tailc s) (lc_tailn s) (lc_err s) (lc_reconnects s) (lc_redials s) (lc_ndials s) (lc_npub s).
 Definition set_oeid (v : nat) (s : Lifecycle_state) : Lifecycle_state :=
-  LcState (lc_active s) (lc_api s) v (lc_shutdown s) (lc_rgen s) (lc_cancelled s) (lc_stopping s) (lc_sup s) (lc_st s) (lc_latch s) (lc_spc s) (lc_reid s) (lc_pdisc s) (lc_pt7 s) (lc_pups s) (lc_pclose s) (lc_stopreq s) (lc_gnotif s) (lc_hascur s) (lc_eid s) (lc_etd s) (lc_edone s) (lc_esock s) (lc_elis s) (lc_eup s) (lc_estop1 s) (lc_estop2 s) (lc_ahold s) (lc_gsender s) (lc_grecv s) (lc_gproc s) (lc_gaccept s) (lc_glt s) (lc_gt7 s) (lc_gjoin s) (lc_hasloop s) (lc_lgen s) (lc_lcount s) (lc_lpc s) (lc_lprev s) (lc_lown s) (lc_tailc s) (lc_tailn s) (lc_err s) (lc_reconnects s) (lc_redials s) (lc_ndials s) (lc_npub s).
+  LcState (lc_active s) (lc_api s) v (lc_shutdown s) (lc_rgen s) (lc_cancelled s) (lc_stopping s) (lc_sup s) (lc_st s) (lc_latch s) (lc_spc s) (lc_reid s) (lc_pdisc s) (lc_pt7 s) (lc_pups s) (lc_pbehind s) (lc_pclose s) (lc_stopreq s) (lc_gnotif s) (lc_hascur s) (lc_eid s) (lc_etd s) (lc_edone s) (lc_esock s) (lc_elis s) (lc_eup s) (lc_estop1 s) (lc_estop2 s) (lc_ahold s) (lc_gsender s) (lc_grecv s) (lc_gproc s) (lc_gaccept s) (lc_glt s) (lc_gt7 s) (lc_gjoin s) (lc_hasloop s) (lc_lgen s) (lc_lcount s) (lc_lpc s) (lc_lprev s) (lc_lown s) (lc_tailc s) (lc_tailn s) (lc_err s) (lc_reconnects s) (lc_redials s) (lc_ndials s) (lc_npub s).
 Definition set_shutdown (v : bool) (s : Lifecycle_state) : Lifecycle_state :=
-  LcState (lc_active s) (lc_api s) (lc_oeid s) v (lc_rgen s) (lc_cancelled s) (lc_stopping s) (lc_sup s) (lc_st s) (lc_latch s) (lc_spc s) (lc_reid s) (lc_pdisc s) (lc_pt7 s) (lc_pups s) (lc_pclose s) (lc_stopreq s) (lc_gnotif s) (lc_hascur s) (lc_eid s) (lc_etd s) (lc_edone s) (lc_esock s) (lc_elis s) (lc_eup s) (lc_estop1 s) (lc_estop2 s) (lc_ahold s) (lc_gsender s) (lc_grecv s) (lc_gproc s) (lc_gaccept s) (lc_glt s) (lc_gt7 s) (lc_gjoin s) (lc_hasloop s) (lc_lgen s) (lc_lcount s) (lc_lpc s) (lc_lprev s) (lc_lown s) (lc_tailc s) (lc_tailn s) (lc_err s) (lc_reconnects s) (lc_redials s) (lc_ndials s) (lc_npub s).
+  LcState (lc_active s) (lc_api s) (lc_oeid s) v (lc_rgen s) (lc_cancelled s) (lc_stopping s) (lc_sup s) (lc_st s) (lc_latch s) (lc_spc s) (lc_reid s) (lc_pdisc s) (lc_pt7 s) (lc_pups s) (lc_pbehind s) (lc_pclose s) (lc_stopreq s) (lc_gnotif s) (lc_hascur s) (lc_eid s) (lc_etd s) (lc_edone s) (lc_esock s) (lc_elis s) (lc_eup s) (lc_estop1 s) (lc_estop2 s) (lc_ahold s) (lc_gsender s) (lc_grecv s) (lc_gproc s) (lc_gaccept s) (lc_glt s) (lc_gt7 s) (lc_gjoin s) (lc_hasloop s) (lc_lgen s) (lc_lcount s) (lc_lpc s) (lc_lprev s) (lc_lown s) (lc_tailc s) (lc_tailn s) (lc_err s) (lc_reconnects s) (lc_redials s) (lc_ndials s) (lc_npub s).
 Definition set_rgen (v : nat) (s : Lifecycle_state) : Lifecycle_state :=
-  LcState (lc_active s) (lc_api s) (lc_oeid s) (lc_shutdown s) v (lc_cancelled s) (lc_stopping s) (lc_sup s) (lc_st s) (lc_latch s) (lc_spc s) (lc_reid s) (lc_pdisc s) (lc_pt7 s) (lc_pups s) (lc_pclose s) (lc_stopreq s) (lc_gnotif s) (lc_hascur s) (lc_eid s) (lc_etd s) (lc_edone s) (lc_esock s) (lc_elis s) (lc_eup s) (lc_estop1 s) (lc_estop2 s) (lc_ahold s) (lc_gsender s) (lc_grecv s) (lc_gproc s) (lc_gaccept s) (lc_glt s) (lc_gt7 s) (lc_gjoin s) (lc_hasloop s) (lc_lgen s) (lc_lcount s) (lc_lpc s) (lc_lprev s) (lc_lown s) (lc_tailc s) (lc_tailn s) (lc_err s) (lc_reconnects s) (lc_redials s) (lc_ndials s) (lc_npub s).
+  LcState (lc_active s) (lc_api s) (lc_oeid s) (lc_shutdown s) v (lc_cancelled s) (lc_stopping s) (lc_sup s) (lc_st s) (lc_latch s) (lc_spc s) (lc_reid s) (lc_pdisc s) (lc_pt7 s) (lc_pups s) (lc_pbehind s) (lc_pclose s) (lc_stopreq s) (lc_gnotif s) (lc_hascur s) (lc_eid s) (lc_etd s) (lc_edone s) (lc_esock s) (lc_elis s) (lc_eup s) (lc_estop1 s) (lc_estop2 s) (lc_ahold s) (lc_gsender s) (lc_grecv s) (lc_gproc s) (lc_gaccept s) (lc_glt s) (lc_gt7 s) (lc_gjoin s) (lc_hasloop s) (lc_lgen s) (lc_lcount s) (lc_lpc s) (lc_lprev s) (lc_lown s) (lc_tailc s) (lc_tailn s) (lc_err s) (lc_reconnects s) (lc_redials s) (lc_ndials s) (lc_npub s).
 Definition set_cancelled (v : bool) (s : Lifecycle_state) : Lifecycle_state :=
-  LcState (lc_active s) (lc_api s) (lc_oeid s) (lc_shutdown s) (lc_rgen s) v (lc_stopping s) (lc_sup s) (lc_st s) (lc_latch s) (lc_spc s) (lc_reid s) (lc_pdisc s) (lc_pt7 s) (lc_pups s) (lc_pclose s) (lc_stopreq s) (lc_gnotif s) (lc_hascur s) (lc_eid s) (lc_etd s) (lc_edone s) (lc_esock s) (lc_elis s) (lc_eup s) (lc_estop1 s) (lc_estop2 s) (lc_ahold s) (lc_gsender s) (lc_grecv s) (lc_gproc s) (lc_gaccept s) (lc_glt s) (lc_gt7 s) (lc_gjoin s) (lc_hasloop s) (lc_lgen s) (lc_lcount s) (lc_lpc s) (lc_lprev s) (lc_lown s) (lc_tailc s) (lc_tailn s) (lc_err s) (lc_reconnects s) (lc_redials s) (lc_ndials s) (lc_npub s).
+  LcState (lc_active s) (lc_api s) (lc_oeid s) (lc_shutdown s) (lc_rgen s) v (lc_stopping s) (lc_sup s) (lc_st s) (lc_latch s) (lc_spc s) (lc_reid s) (lc_pdisc s) (lc_pt7 s) (lc_pups s) (lc_pbehind s) (lc_pclose s) (lc_stopreq s) (lc_gnotif s) (lc_hascur s) (lc_eid s) (lc_etd s) (lc_edone s) (lc_esock s) (lc_elis s) (lc_eup s) (lc_estop1 s) (lc_estop2 s) (lc_ahold s) (lc_gsender s) (lc_grecv s) (lc_gproc s) (lc_gaccept s) (lc_glt s) (lc_gt7 s) (lc_gjoin s) (lc_hasloop s) (lc_lgen s) (lc_lcount s) (lc_lpc s) (lc_lprev s) (lc_lown s) (lc_tailc s) (lc_tailn s) (lc_err s) (lc_reconnects s) (lc_redials s) (lc_ndials s) (lc_npub s).
 Definition set_stopping (v : bool) (s : Lifecycle_state) : Lifecycle_state :=
-  LcState (lc_active s) (lc_api s) (lc_oeid s) (lc_shutdown s) (lc_rgen s) (lc_cancelled s) v (lc_sup s) (lc_st s) (lc_latch s) (lc_spc s) (lc_reid s) (lc_pdisc s) (lc_pt7 s) (lc_pups s) (lc_pclose s) (lc_stopreq s) (lc_gnotif s) (lc_hascur s) (lc_eid s) (lc_etd s) (lc_edone s) (lc_esock s) (lc_elis s) (lc_eup s) (lc_estop1 s) (lc_estop2 s) (lc_ahold s) (lc_gsender s) (lc_grecv s) (lc_gproc s) (lc_gaccept s) (lc_glt s) (lc_gt7 s) (lc_gjoin s) (lc_hasloop s) (lc_lgen s) (lc_lcount s) (lc_lpc s) (lc_lprev s) (lc_lown s) (lc_tailc s) (lc_tailn s) (lc_err s) (lc_reconnects s) (lc_redials s) (lc_ndials s) (lc_npub s).
+  LcState (lc_active s) (lc_api s) (lc_oeid s) (lc_shutdown s) (lc_rgen s) (lc_cancelled s) v (lc_sup s) (lc_st s) (lc_latch s) (lc_spc s) (lc_reid s) (lc_pdisc s) (lc_pt7 s) (lc_pups s) (lc_pbehind s) (lc_pclose s) (lc_stopreq s) (lc_gnotif s) (lc_hascur s) (lc_eid s) (lc_etd s) (lc_edone s) (lc_esock s) (lc_elis s) (lc_eup s) (lc_estop1 s) (lc_estop2 s) (lc_ahold s) (lc_gsender s) (lc_grecv s) (lc_gproc s) (lc_gaccept s) (lc_glt s) (lc_gt7 s) (lc_gjoin s) (lc_hasloop s) (lc_lgen s) (lc_lcount s) (lc_lpc s) (lc_lprev s) (lc_lown s) (lc_tailc s) (lc_tailn s) (lc_err s) (lc_reconnects s) (lc_redials s) (lc_ndials s) (lc_npub s).
 Definition set_sup (v : lc_suplife) (s : Lifecycle_state) : Lifecycle_state :=
-  LcState (lc_active s) (lc_api s) (lc_oeid s) (lc_shutdown s) (lc_rgen s) (lc_cancelled s) (lc_stopping s) v (lc_st s) (lc_latch s) (lc_spc s) (lc_reid s) (lc_pdisc s) (lc_pt7 s) (lc_pups s) (lc_pclose s) (lc_stopreq s) (lc_gnotif s) (lc_hascur s) (lc_eid s) (lc_etd s) (lc_edone s) (lc_esock s) (lc_elis s) (lc_eup s) (lc_estop1 s) (lc_estop2 s) (lc_ahold s) (lc_gsender s) (lc_grecv s) (lc_gproc s) (lc_gaccept s) (lc_glt s) (lc_gt7 s) (lc_gjoin s) (lc_hasloop s) (lc_lgen s) (lc_lcount s) (lc_lpc s) (lc_lprev s) (lc_lown s) (lc_tailc s) (lc_tailn s) (lc_err s) (lc_reconnects s) (lc_redials s) (lc_ndials s) (lc_npub s).
+  LcState (lc_active s) (lc_api s) (lc_oeid s) (lc_shutdown s) (lc_rgen s) (lc_cancelled s) (lc_stopping s) v (lc_st s) (lc_latch s) (lc_spc s) (lc_reid s) (lc_pdisc s) (lc_pt7 s) (lc_pups s) (lc_pbehind s) (lc_pclose s) (lc_stopreq s) (lc_gnotif s) (lc_hascur s) (lc_eid s) (lc_etd s) (lc_edone s) (lc_esock s) (lc_elis s) (lc_eup s) (lc_estop1 s) (lc_estop2 s) (lc_ahold s) (lc_gsender s) (lc_grecv s) (lc_gproc s) (lc_gaccept s) (lc_glt s) (lc_gt7 s) (lc_gjoin s) (lc_hasloop s) (lc_lgen s) (lc_lcount s) (lc_lpc s) (lc_lprev s) (lc_lown s) (lc_tailc s) (lc_tailn s) (lc_err s) (lc_reconnects s) (lc_redials s) (lc_ndials s) (lc_npub s).
 Definition set_st (v : lc_cstate) (s : Lifecycle_state) : Lifecycle_state :=
-  LcState (lc_active s) (lc_api s) (lc_oeid s) (lc_shutdown s) (lc_rgen s) (lc_cancelled s) (lc_stopping s) (lc_sup s) v (lc_latch s) (lc_spc s) (lc_reid s) (lc_pdisc s) (lc_pt7 s) (lc_pups s) (lc_pclose s) (lc_stopreq s) (lc_gnotif s) (lc_hascur s) (lc_eid s) (lc_etd s) (lc_edone s) (lc_esock s) (lc_elis s) (lc_eup s) (lc_estop1 s) (lc_estop2 s) (lc_ahold s) (lc_gsender s) (lc_grecv s) (lc_gproc s) (lc_gaccept s) (lc_glt s) (lc_gt7 s) (lc_gjoin s) (lc_hasloop s) (lc_lgen s) (lc_lcount s) (lc_lpc s) (lc_lprev s) (lc_lown s) (lc_tailc s) (lc_tailn s) (lc_err s) (lc_reconnects s) (lc_redials s) (lc_ndials s) (lc_npub s).
+  LcState (lc_active s) (lc_api s) (lc_oeid s) (lc_shutdown s) (lc_rgen s) (lc_cancelled s) (lc_stopping s) (lc_sup s) v (lc_latch s) (lc_spc s) (lc_reid s) (lc_pdisc s) (lc_pt7 s) (lc_pups s) (lc_pbehind s) (lc_pclose s) (lc_stopreq s) (lc_gnotif s) (lc_hascur s) (lc_eid s) (lc_etd s) (lc_edone s) (lc_esock s) (lc_elis s) (lc_eup s) (lc_estop1 s) (lc_estop2 s) (lc_ahold s) (lc_gsender s) (lc_grecv s) (lc_gproc s) (lc_gaccept s) (lc_glt s) (lc_gt7 s) (lc_gjoin s) (lc_hasloop s) (lc_lgen s) (lc_lcount s) (lc_lpc s) (lc_lprev s) (lc_lown s) (lc_tailc s) (lc_tailn s) (lc_err s) (lc_reconnects s) (lc_redials s) (lc_ndials s) (lc_npub s).
 Definition set_latch (v : bool) (s : Lifecycle_state) : Lifecycle_state :=
-  LcState (lc_active s) (lc_api s) (lc_oeid s) (lc_shutdown s) (lc_rgen s) (lc_cancelled s) (lc_stopping s) (lc_sup s) (lc_st s) v (lc_spc s) (lc_reid s) (lc_pdisc s) (lc_pt7 s) (lc_pups s) (lc_pclose s) (lc_stopreq s) (lc_gnotif s) (lc_hascur s) (lc_eid s) (lc_etd s) (lc_edone s) (lc_esock s) (lc_elis s) (lc_eup s) (lc_estop1 s) (lc_estop2 s) (lc_ahold s) (lc_gsender s) (lc_grecv s) (lc_gproc s) (lc_gaccept s) (lc_glt s) (lc_gt7 s) (lc_gjoin s) (lc_hasloop s) (lc_lgen s) (lc_lcount s) (lc_lpc s) (lc_lprev s) (lc_lown s) (lc_tailc s) (lc_tailn s) (lc_err s) (lc_reconnects s) (lc_redials s) (lc_ndials s) (lc_npub s).
+  LcState (lc_active s) (lc_api s) (lc_oeid s) (lc_shutdown s) (lc_rgen s) (lc_cancelled s) (lc_stopping s) (lc_sup s) (lc_st s) v (lc_spc s) (lc_reid s) (lc_pdisc s) (lc_pt7 s) (lc_pups s) (lc_pbehind s) (lc_pclose s) (lc_stopreq s) (lc_gnotif s) (lc_hascur s) (lc_eid s) (lc_etd s) (lc_edone s) (lc_esock s) (lc_elis s) (lc_eup s) (lc_estop1 s) (lc_estop2 s) (lc_ahold s) (lc_gsender s) (lc_grecv s) (lc_gproc s) (lc_gaccept s) (lc_glt s) (lc_gt7 s) (lc_gjoin s) (lc_hasloop s) (lc_lgen s) (lc_lcount s) (lc_lpc s) (lc_lprev s) (lc_lown s) (lc_tailc s) (lc_tailn s) (lc_err s) (lc_reconnects s) (lc_redials s) (lc_ndials s) (lc_npub s).
 Definition set_spc (v : lc_sup_pc) (s : Lifecycle_state) : Lifecycle_state :=
-  LcState (lc_active s) (lc_api s) (lc_oeid s) (lc_shutdown s) (lc_rgen s) (lc_cancelled s) (lc_stopping s) (lc_sup s) (lc_st s) (lc_latch s) v (lc_reid s) (lc_pdisc s) (lc_pt7 s) (lc_pups s) (lc_pclose s) (lc_stopreq s) (lc_gnotif s) (lc_hascur s) (lc_eid s) (lc_etd s) (lc_edone s) (lc_esock s) (lc_elis s) (lc_eup s) (lc_estop1 s) (lc_estop2 s) (lc_ahold s) (lc_gsender s) (lc_grecv s) (lc_gproc s) (lc_gaccept s) (lc_glt s) (lc_gt7 s) (lc_gjoin s) (lc_hasloop s) (lc_lgen s) (lc_lcount s) (lc_lpc s) (lc_lprev s) (lc_lown s) (lc_tailc s) (lc_tailn s) (lc_err s) (lc_reconnects s) (lc_redials s) (lc_ndials s) (lc_npub s).
+  LcState (lc_active s) (lc_api s) (lc_oeid s) (lc_shutdown s) (lc_rgen s) (lc_cancelled s) (lc_stopping s) (lc_sup s) (lc_st s) (lc_latch s) v (lc_reid s) (lc_pdisc s) (lc_pt7 s) (lc_pups s) (lc_pbehind s) (lc_pclose s) (lc_stopreq s) (lc_gnotif s) (lc_hascur s) (lc_eid s) (lc_etd s) (lc_edone s) (lc_esock s) (lc_elis s) (lc_eup s) (lc_estop1 s) (lc_estop2 s) (lc_ahold s) (lc_gsender s) (lc_grecv s) (lc_gproc s) (lc_gaccept s) (lc_glt s) (lc_gt7 s) (lc_gjoin s) (lc_hasloop s) (lc_lgen s) (lc_lcount s) (lc_lpc s) (lc_lprev s) (lc_lown s) (lc_tailc s) (lc_tailn s) (lc_err s) (lc_reconnects s) (lc_redials s) (lc_ndials s) (lc_npub s).
 Definition set_reid (v : nat) (s : Lifecycle_state) : Lifecycle_state :=
-  LcState (lc_active s) (lc_api s) (lc_oeid s) (lc_shutdown s) (lc_rgen s) (lc_cancelled s) (lc_stopping s) (lc_sup s) (lc_st s) (lc_latch s) (lc_spc s) v (lc_pdisc s) (lc_pt7 s) (lc_pups s) (lc_pclose s) (lc_stopreq s) (lc_gnotif s) (lc_hascur s) (lc_eid s) (lc_etd s) (lc_edone s) (lc_esock s) (lc_elis s) (lc_eup s) (lc_estop1 s) (lc_estop2 s) (lc_ahold s) (lc_gsender s) (lc_grecv s) (lc_gproc s) (lc_gaccept s) (lc_glt s) (lc_gt7 s) (lc_gjoin s) (lc_hasloop s) (lc_lgen s) (lc_lcount s) (lc_lpc s) (lc_lprev s) (lc_lown s) (lc_tailc s) (lc_tailn s) (lc_err s) (lc_reconnects s) (lc_redials s) (lc_ndials s) (lc_npub s).
+  LcState (lc_active s) (lc_api s) (lc_oeid s) (lc_shutdown s) (lc_rgen s) (lc_cancelled s) (lc_stopping s) (lc_sup s) (lc_st s) (lc_latch s) (lc_spc s) v (lc_pdisc s) (lc_pt7 s) (lc_pups s) (lc_pbehind s) (lc_pclose s) (lc_stopreq s) (lc_gnotif s) (lc_hascur s) (lc_eid s) (lc_etd s) (lc_edone s) (lc_esock s) (lc_elis s) (lc_eup s) (lc_estop1 s) (lc_estop2 s) (lc_ahold s) (lc_gsender s) (lc_grecv s) (lc_gproc s) (lc_gaccept s) (lc_glt s) (lc_gt7 s) (lc_gjoin s) (lc_hasloop s) (lc_lgen s) (lc_lcount s) (lc_lpc s) (lc_lprev s) (lc_lown s) (lc_tailc s) (lc_tailn s) (lc_err s) (lc_reconnects s) (lc_redials s) (lc_ndials s) (lc_npub s).
 Definition set_pdisc (v : nat) (s : Lifecycle_state) : Lifecycle_state :=
-  LcState (lc_active s) (lc_api s) (lc_oeid s) (lc_shutdown s) (lc_rgen s) (lc_cancelled s) (lc_stopping s) (lc_sup s) (lc_st s) (lc_latch s) (lc_spc s) (lc_reid s) v (lc_pt7 s) (lc_pups s) (lc_pclose s) (lc_stopreq s) (lc_gnotif s) (lc_hascur s) (lc_eid s) (lc_etd s) (lc_edone s) (lc_esock s) (lc_elis s) (lc_eup s) (lc_estop1 s) (lc_estop2 s) (lc_ahold s) (lc_gsender s) (lc_grecv s) (lc_gproc s) (lc_gaccept s) (lc_glt s) (lc_gt7 s) (lc_gjoin s) (lc_hasloop s) (lc_lgen s) (lc_lcount s) (lc_lpc s) (lc_lprev s) (lc_lown s) (lc_tailc s) (lc_tailn s) (lc_err s) (lc_reconnects s) (lc_redials s) (lc_ndials s) (lc_npub s).
+  LcState (lc_active s) (lc_api s) (lc_oeid s) (lc_shutdown s) (lc_rgen s) (lc_cancelled s) (lc_stopping s) (lc_sup s) (lc_st s) (lc_latch s) (lc_spc s) (lc_reid s) v (lc_pt7 s) (lc_pups s) (lc_pbehind s) (lc_pclose s) (lc_stopreq s) (lc_gnotif s) (lc_hascur s) (lc_eid s) (lc_etd s) (lc_edone s) (lc_esock s) (lc_elis s) (lc_eup s) (lc_estop1 s) (lc_estop2 s) (lc_ahold s) (lc_gsender s) (lc_grecv s) (lc_gproc s) (lc_gaccept s) (lc_glt s) (lc_gt7 s) (lc_gjoin s) (lc_hasloop s) (lc_lgen s) (lc_lcount s) (lc_lpc s) (lc_lprev s) (lc_lown s) (lc_tailc s) (lc_tailn s) (lc_err s) (lc_reconnects s) (lc_redials s) (lc_ndials s) (lc_npub s).
 Definition set_pt7 (v : nat) (s : Lifecycle_state) : Lifecycle_state :=
-  LcState (lc_active s) (lc_api s) (lc_oeid s) (lc_shutdown s) (lc_rgen s) (lc_cancelled s) (lc_stopping s) (lc_sup s) (lc_st s) (lc_latch s) (lc_spc s) (lc_reid s) (lc_pdisc s) v (lc_pups s) (lc_pclose s) (lc_stopreq s) (lc_gnotif s) (lc_hascur s) (lc_eid s) (lc_etd s) (lc_edone s) (lc_esock s) (lc_elis s) (lc_eup s) (lc_estop1 s) (lc_estop2 s) (lc_ahold s) (lc_gsender s) (lc_grecv s) (lc_gproc s) (lc_gaccept s) (lc_glt s) (lc_gt7 s) (lc_gjoin s) (lc_hasloop s) (lc_lgen s) (lc_lcount s) (lc_lpc s) (lc_lprev s) (lc_lown s) (lc_tailc s) (lc_tailn s) (lc_err s) (lc_reconnects s) (lc_redials s) (lc_ndials s) (lc_npub s).
-Definition set_pups (v : nat) (s : Lifecycle_state) : Lifecycle_state :=
-  LcState (lc_active s) (lc_api s) (lc_oeid s) (lc_shutdown s) (lc_rgen s) (lc_cancelled s) (lc_stopping s) (lc_sup s) (lc_st s) (lc_latch s) (lc_spc s) (lc_reid s) (lc_pdisc s) (lc_pt7 s) v (lc_pclose s) (lc_stopreq s) (lc_gnotif s) (lc_hascur s) (lc_eid s) (lc_etd s) (lc_edone s) (lc_esock s) (lc_elis s) (lc_eup s) (lc_estop1 s) (lc_estop2 s) (lc_ahold s) (lc_gsender s) (lc_grecv s) (lc_gproc s) (lc_gaccept s) (lc_glt s) (lc_gt7 s) (lc_gjoin s) (lc_hasloop s) (lc_lgen s) (lc_lcount s) (lc_lpc s) (lc_lprev s) (lc_lown s) (lc_tailc s) (lc_tailn s) (lc_err s) (lc_reconnects s) (lc_redials s) (lc_ndials s) (lc_npub s).
+  LcState (lc_active s) (lc_api s) (lc_oeid s) (lc_shutdown s) (lc_rgen s) (lc_cancelled s) (lc_stopping s) (lc_sup s) (lc_st s) (lc_latch s) (lc_spc s) (lc_reid s) (lc_pdisc s) v (lc_pups s) (lc_pbehind s) (lc_pclose s) (lc_stopreq s) (lc_gnotif s) (lc_hascur s) (lc_eid s) (lc_etd s) (lc_edone s) (lc_esock s) (lc_elis s) (lc_eup s) (lc_estop1 s) (lc_estop2 s) (lc_ahold s) (lc_gsender s) (lc_grecv s) (lc_gproc s) (lc_gaccept s) (lc_glt s) (lc_gt7 s) (lc_gjoin s) (lc_hasloop s) (lc_lgen s) (lc_lcount s) (lc_lpc s) (lc_lprev s) (lc_lown s) (lc_tailc s) (lc_tailn s) (lc_err s) (lc_reconnects s) (lc_redials s) (lc_ndials s) (lc_npub s).
+Definition set_pups (v : bool) (s : Lifecycle_state) : Lifecycle_state :=
+  LcState (lc_active s) (lc_api s) (lc_oeid s) (lc_shutdown s) (lc_rgen s) (lc_cancelled s) (lc_stopping s) (lc_sup s) (lc_st s) (lc_latch s) (lc_spc s) (lc_reid s) (lc_pdisc s) (lc_pt7 s) v (lc_pbehind s) (lc_pclose s) (lc_stopreq s) (lc_gnotif s) (lc_hascur s) (lc_eid s) (lc_etd s) (lc_edone s) (lc_esock s) (lc_elis s) (lc_eup s) (lc_estop1 s) (lc_estop2 s) (lc_ahold s) (lc_gsender s) (lc_grecv s) (lc_gproc s) (lc_gaccept s) (lc_glt s) (lc_gt7 s) (lc_gjoin s) (lc_hasloop s) (lc_lgen s) (lc_lcount s) (lc_lpc s) (lc_lprev s) (lc_lown s) (lc_tailc s) (lc_tailn s) (lc_err s) (lc_reconnects s) (lc_redials s) (lc_ndials s) (lc_npub s).
+Definition set_pbehind (v : nat) (s : Lifecycle_state) : Lifecycle_state :=
+  LcState (lc_active s) (lc_api s) (lc_oeid s) (lc_shutdown s) (lc_rgen s) (lc_cancelled s) (lc_stopping s) (lc_sup s) (lc_st s) (lc_latch s) (lc_spc s) (lc_reid s) (lc_pdisc s) (lc_pt7 s) (lc_pups s) v (lc_pclose s) (lc_stopreq s) (lc_gnotif s) (lc_hascur s) (lc_eid s) (lc_etd s) (lc_edone s) (lc_esock s) (lc_elis s) (lc_eup s) (lc_estop1 s) (lc_estop2 s) (lc_ahold s) (lc_gsender s) (lc_grecv s) (lc_gproc s) (lc_gaccept s) (lc_glt s) (lc_gt7 s) (lc_gjoin s) (lc_hasloop s) (lc_lgen s) (lc_lcount s) (lc_lpc s) (lc_lprev s) (lc_lown s) (lc_tailc s) (lc_tailn s) (lc_err s) (lc_reconnects s) (lc_redials s) (lc_ndials s) (lc_npub s).
 Definition set_pclose (v : bool) (s : Lifecycle_state) : Lifecycle_state :=
-  LcState (lc_active s) (lc_api s) (lc_oeid s) (lc_shutdown s) (lc_rgen s) (lc_cancelled s) (lc_stopping s) (lc_sup s) (lc_st s) (lc_latch s) (lc_spc s) (lc_reid s) (lc_pdisc s) (lc_pt7 s) (lc_pups s) v (lc_stopreq s) (lc_gnotif s) (lc_hascur s) (lc_eid s) (lc_etd s) (lc_edone s) (lc_esock s) (lc_elis s) (lc_eup s) (lc_estop1 s) (lc_estop2 s) (lc_ahold s) (lc_gsender s) (lc_grecv s) (lc_gproc s) (lc_gaccept s) (lc_glt s) (lc_gt7 s) (lc_gjoin s) (lc_hasloop s) (lc_lgen s) (lc_lcount s) (lc_lpc s) (lc_lprev s) (lc_lown s) (lc_tailc s) (lc_tailn s) (lc_err s) (lc_reconnects s) (lc_redials s) (lc_ndials s) (lc_npub s).
+  LcState (lc_active s) (lc_api s) (lc_oeid s) (lc_shutdown s) (lc_rgen s) (lc_cancelled s) (lc_stopping s) (lc_sup s) (lc_st s) (lc_latch s) (lc_spc s) (lc_reid s) (lc_pdisc s) (lc_pt7 s) (lc_pups s) (lc_pbehind s) v (lc_stopreq s) (lc_gnotif s) (lc_hascur s) (lc_eid s) (lc_etd s) (lc_edone s) (lc_esock s) (lc_elis s) (lc_eup s) (lc_estop1 s) (lc_estop2 s) (lc_ahold s) (lc_gsender s) (lc_grecv s) (lc_gproc s) (lc_gaccept s) (lc_glt s) (lc_gt7 s) (lc_gjoin s) (lc_hasloop s) (lc_lgen s) (lc_lcount s) (lc_lpc s) (lc_lprev s) (lc_lown s) (lc_tailc s) (lc_tailn s) (lc_err s) (lc_reconnects s) (lc_redials s) (lc_ndials s) (lc_npub s).
 Definition set_stopreq (v : bool) (s : Lifecycle_state) : Lifecycle_state :=
-  LcState (lc_active s) (lc_api s) (lc_oeid s) (lc_shutdown s) (lc_rgen s) (lc_cancelled s) (lc_stopping s) (lc_sup s) (lc_st s) (lc_latch s) (lc_spc s) (lc_reid s) (lc_pdisc s) (lc_pt7 s) (lc_pups s) (lc_pclose s) v (lc_gnotif s) (lc_hascur s) (lc_eid s) (lc_etd s) (lc_edone s) (lc_esock s) (lc_elis s) (lc_eup s) (lc_estop1 s) (lc_estop2 s) (lc_ahold s) (lc_gsender s) (lc_grecv s) (lc_gproc s) (lc_gaccept s) (lc_glt s) (lc_gt7 s) (lc_gjoin s) (lc_hasloop s) (lc_lgen s) (lc_lcount s) (lc_lpc s) (lc_lprev s) (lc_lown s) (lc_tailc s) (lc_tailn s) (lc_err s) (lc_reconnects s) (lc_redials s) (lc_ndials s) (lc_npub s).
+  LcState (lc_active s) (lc_api s) (lc_oeid s) (lc_shutdown s) (lc_rgen s) (lc_cancelled s) (lc_stopping s) (lc_sup s) (lc_st s) (lc_latch s) (lc_spc s) (lc_reid s) (lc_pdisc s) (lc_pt7 s) (lc_pups s) (lc_pbehind s) (lc_pclose s) v (lc_gnotif s) (lc_hascur s) (lc_eid s) (lc_etd s) (lc_edone s) (lc_esock s) (lc_elis s) (lc_eup s) (lc_estop1 s) (lc_estop2 s) (lc_ahold s) (lc_gsender s) (lc_grecv s) (lc_gproc s) (lc_gaccept s) (lc_glt s) (lc_gt7 s) (lc_gjoin s) (lc_hasloop s) (lc_lgen s) (lc_lcount s) (lc_lpc s) (lc_lprev s) (lc_lown s) (lc_tailc s) (lc_tailn s) (lc_err s) (lc_reconnects s) (lc_redials s) (lc_ndials s) (lc_npub s).
 Definition set_gnotif (v : bool) (s : Lifecycle_state) : Lifecycle_state :=
-  LcState (lc_active s) (lc_api s) (lc_oeid s) (lc_shutdown s) (lc_rgen s) (lc_cancelled s) (lc_stopping s) (lc_sup s) (lc_st s) (lc_latch s) (lc_spc s) (lc_reid s) (lc_pdisc s) (lc_pt7 s) (lc_pups s) (lc_pclose s) (lc_stopreq s) v (lc_hascur s) (lc_eid s) (lc_etd s) (lc_edone s) (lc_esock s) (lc_elis s) (lc_eup s) (lc_estop1 s) (lc_estop2 s) (lc_ahold s) (lc_gsender s) (lc_grecv s) (lc_gproc s) (lc_gaccept s) (lc_glt s) (lc_gt7 s) (lc_gjoin s) (lc_hasloop s) (lc_lgen s) (lc_lcount s) (lc_lpc s) (lc_lprev s) (lc_lown s) (lc_tailc s) (lc_tailn s) (lc_err s) (lc_reconnects s) (lc_redials s) (lc_ndials s) (lc_npub s).
+  LcState (lc_active s) (lc_api s) (lc_oeid s) (lc_shutdown s) (lc_rgen s) (lc_cancelled s) (lc_stopping s) (lc_sup s) (lc_st s) (lc_latch s) (lc_spc s) (lc_reid s) (lc_pdisc s) (lc_pt7 s) (lc_pups s) (lc_pbehind s) (lc_pclose s) (lc_stopreq s) v (lc_hascur s) (lc_eid s) (lc_etd s) (lc_edone s) (lc_esock s) (lc_elis s) (lc_eup s) (lc_estop1 s) (lc_estop2 s) (lc_ahold s) (lc_gsender s) (lc_grecv s) (lc_gproc s) (lc_gaccept s) (lc_glt s) (lc_gt7 s) (lc_gjoin s) (lc_hasloop s) (lc_lgen s) (lc_lcount s) (lc_lpc s) (lc_lprev s) (lc_lown s) (lc_tailc s) (lc_tailn s) (lc_err s) (lc_reconnects s) (lc_redials s) (lc_ndials s) (lc_npub s).
 Definition set_hascur (v : bool) (s : Lifecycle_state) : Lifecycle_state :=
-  LcState (lc_active s) (lc_api s) (lc_oeid s) (lc_shutdown s) (lc_rgen s) (lc_cancelled s) (lc_stopping s) (lc_sup s) (lc_st s) (lc_latch s) (lc_spc s) (lc_reid s) (lc_pdisc s) (lc_pt7 s) (lc_pups s) (lc_pclose s) (lc_stopreq s) (lc_gnotif s) v (lc_eid s) (lc_etd s) (lc_edone s) (lc_esock s) (lc_elis s) (lc_eup s) (lc_estop1 s) (lc_estop2 s) (lc_ahold s) (lc_gsender s) (lc_grecv s) (lc_gproc s) (lc_gaccept s) (lc_glt s) (lc_gt7 s) (lc_gjoin s) (lc_hasloop s) (lc_lgen s) (lc_lcount s) (lc_lpc s) (lc_lprev s) (lc_lown s) (lc_tailc s) (lc_tailn s) (lc_err s) (lc_reconnects s) (lc_redials s) (lc_ndials s) (lc_npub s).
+  LcState (lc_active s) (lc_api s) (lc_oeid s) (lc_shutdown s) (lc_rgen s) (lc_cancelled s) (lc_stopping s) (lc_sup s) (lc_st s) (lc_latch s) (lc_spc s) (lc_reid s) (lc_pdisc s) (lc_pt7 s) (lc_pups s) (lc_pbehind s) (lc_pclose s) (lc_stopreq s) (lc_gnotif s) v (lc_eid s) (lc_etd s) (lc_edone s) (lc_esock s) (lc_elis s) (lc_eup s) (lc_estop1 s) (lc_estop2 s) (lc_ahold s) (lc_gsender s) (lc_grecv s) (lc_gproc s) (lc_gaccept s) (lc_glt s) (lc_gt7 s) (lc_gjoin s) (lc_hasloop s) (lc_lgen s) (lc_lcount s) (lc_lpc s) (lc_lprev s) (lc_lown s) (lc_tailc s) (lc_tailn s) (lc_err s) (lc_reconnects s) (lc_redials s) (lc_ndials s) (lc_npub s).
 Definition set_eid (v : nat) (s : Lifecycle_state) : Lifecycle_state :=
-  LcState (lc_active s) (lc_api s) (lc_oeid s) (lc_shutdown s) (lc_rgen s) (lc_cancelled s) (lc_stopping s) (lc_sup s) (lc_st s) (lc_latch s) (lc_spc s) (lc_reid s) (lc_pdisc s) (lc_pt7 s) (lc_pups s) (lc_pclose s) (lc_stopreq s) (lc_gnotif s) (lc_hascur s) v (lc_etd s) (lc_edone s) (lc_esock s) (lc_elis s) (lc_eup s) (lc_estop1 s) (lc_estop2 s) (lc_ahold s) (lc_gsender s) (lc_grecv s) (lc_gproc s) (lc_gaccept s) (lc_glt s) (lc_gt7 s) (lc_gjoin s) (lc_hasloop s) (lc_lgen s) (lc_lcount s) (lc_lpc s) (lc_lprev s) (lc_lown s) (lc_tailc s) (lc_tailn s) (lc_err s) (lc_reconnects s) (lc_redials s) (lc_ndials s) (lc_npub s).
+  LcState (lc_active s) (lc_api s) (lc_oeid s) (lc_shutdown s) (lc_rgen s) (lc_cancelled s) (lc_stopping s) (lc_sup s) (lc_st s) (lc_latch s) (lc_spc s) (lc_reid s) (lc_pdisc s) (lc_pt7 s) (lc_pups s) (lc_pbehind s) (lc_pclose s) (lc_stopreq s) (lc_gnotif s) (lc_hascur s) v (lc_etd s) (lc_edone s) (lc_esock s) (lc_elis s) (lc_eup s) (lc_estop1 s) (lc_estop2 s) (lc_ahold s) (lc_gsender s) (lc_grecv s) (lc_gproc s) (lc_gaccept s) (lc_glt s) (lc_gt7 s) (lc_gjoin s) (lc_hasloop s) (lc_lgen s) (lc_lcount s) (lc_lpc s) (lc_lprev s) (lc_lown s) (lc_tailc s) (lc_tailn s) (lc_err s) (lc_reconnects s) (lc_redials s) (lc_ndials s) (lc_npub s).
 Definition set_etd (v : bool) (s : Lifecycle_state) : Lifecycle_state :=
-  LcState (lc_active s) (lc_api s) (lc_oeid s) (lc_shutdown s) (lc_rgen s) (lc_cancelled s) (lc_stopping s) (lc_sup s) (lc_st s) (lc_latch s) (lc_spc s) (lc_reid s) (lc_pdisc s) (lc_pt7 s) (lc_pups s) (lc_pclose s) (lc_stopreq s) (lc_gnotif s) (lc_hascur s) (lc_eid s) v (lc_edone s) (lc_esock s) (lc_elis s) (lc_eup s) (lc_estop1 s) (lc_estop2 s) (lc_ahold s) (lc_gsender s) (lc_grecv s) (lc_gproc s) (lc_gaccept s) (lc_glt s) (lc_gt7 s) (lc_gjoin s) (lc_hasloop s) (lc_lgen s) (lc_lcount s) (lc_lpc s) (lc_lprev s) (lc_lown s) (lc_tailc s) (lc_tailn s) (lc_err s) (lc_reconnects s) (lc_redials s) (lc_ndials s) (lc_npub s).
+  LcState (lc_active s) (lc_api s) (lc_oeid s) (lc_shutdown s) (lc_rgen s) (lc_cancelled s) (lc_stopping s) (lc_sup s) (lc_st s) (lc_latch s) (lc_spc s) (lc_reid s) (lc_pdisc s) (lc_pt7 s) (lc_pups s) (lc_pbehind s) (lc_pclose s) (lc_stopreq s) (lc_gnotif s) (lc_hascur s) (lc_eid s) v (lc_edone s) (lc_esock s) (lc_elis s) (lc_eup s) (lc_estop1 s) (lc_estop2 s) (lc_ahold s) (lc_gsender s) (lc_grecv s) (lc_gproc s) (lc_gaccept s) (lc_glt s) (lc_gt7 s) (lc_gjoin s) (lc_hasloop s) (lc_lgen s) (lc_lcount s) (lc_lpc s) (lc_lprev s) (lc_lown s) (lc_tailc s) (lc_tailn s) (lc_err s) (lc_reconnects s) (lc_redials s) (lc_ndials s) (lc_npub s).
 Definition set_edone (v : bool) (s : Lifecycle_state) : Lifecycle_state :=
-  LcState (lc_active s) (lc_api s) (lc_oeid s) (lc_shutdown s) (lc_rgen s) (lc_cancelled s) (lc_stopping s) (lc_sup s) (lc_st s) (lc_latch s) (lc_spc s) (lc_reid s) (lc_pdisc s) (lc_pt7 s) (lc_pups s) (lc_pclose s) (lc_stopreq s) (lc_gnotif s) (lc_hascur s) (lc_eid s) (lc_etd s) v (lc_esock s) (lc_elis s) (lc_eup s) (lc_estop1 s) (lc_estop2 s) (lc_ahold s) (lc_gsender s) (lc_grecv s) (lc_gproc s) (lc_gaccept s) (lc_glt s) (lc_gt7 s) (lc_gjoin s) (lc_hasloop s) (lc_lgen s) (lc_lcount s) (lc_lpc s) (lc_lprev s) (lc_lown s) (lc_tailc s) (lc_tailn s) (lc_err s) (lc_reconnects s) (lc_redials s) (lc_ndials s) (lc_npub s).
+  LcState (lc_active s) (lc_api s) (lc_oeid s) (lc_shutdown s) (lc_rgen s) (lc_cancelled s) (lc_stopping s) (lc_sup s) (lc_st s) (lc_latch s) (lc_spc s) (lc_reid s) (lc_pdisc s) (lc_pt7 s) (lc_pups s) (lc_pbehind s) (lc_pclose s) (lc_stopreq s) (lc_gnotif s) (lc_hascur s) (lc_eid s) (lc_etd s) v (lc_esock s) (lc_elis s) (lc_eup s) (lc_estop1 s) (lc_estop2 s) (lc_ahold s) (lc_gsender s) (lc_grecv s) (lc_gproc s) (lc_gaccept s) (lc_glt s) (lc_gt7 s) (lc_gjoin s) (lc_hasloop s) (lc_lgen s) (lc_lcount s) (lc_lpc s) (lc_lprev s) (lc_lown s) (lc_tailc s) (lc_tailn s) (lc_err s) (lc_reconnects s) (lc_redials s) (lc_ndials s) (lc_npub s).
 Definition set_esock (v : bool) (s : Lifecycle_state) : Lifecycle_state :=
-  LcState (lc_active s) (lc_api s) (lc_oeid s) (lc_shutdown s) (lc_rgen s) (lc_cancelled s) (lc_stopping s) (lc_sup s) (lc_st s) (lc_latch s) (lc_spc s) (lc_reid s) (lc_pdisc s) (lc_pt7 s) (lc_pups s) (lc_pclose s) (lc_stopreq s) (lc_gnotif s) (lc_hascur s) (lc_eid s) (lc_etd s) (lc_edone s) v (lc_elis s) (lc_eup s) (lc_estop1 s) (lc_estop2 s) (lc_ahold s) (lc_gsender s) (lc_grecv s) (lc_gproc s) (lc_gaccept s) (lc_glt s) (lc_gt7 s) (lc_gjoin s) (lc_hasloop s) (lc_lgen s) (lc_lcount s) (lc_lpc s) (lc_lprev s) (lc_lown s) (lc_tailc s) (lc_tailn s) (lc_err s) (lc_reconnects s) (lc_redials s) (lc_ndials s) (lc_npub s).
+  LcState (lc_active s) (lc_api s) (lc_oeid s) (lc_shutdown s) (lc_rgen s) (lc_cancelled s) (lc_stopping s) (lc_sup s) (lc_st s) (lc_latch s) (lc_spc s) (lc_reid s) (lc_pdisc s) (lc_pt7 s) (lc_pups s) (lc_pbehind s) (lc_pclose s) (lc_stopreq s) (lc_gnotif s) (lc_hascur s) (lc_eid s) (lc_etd s) (lc_edone s) v (lc_elis s) (lc_eup s) (lc_estop1 s) (lc_estop2 s) (lc_ahold s) (lc_gsender s) (lc_grecv s) (lc_gproc s) (lc_gaccept s) (lc_glt s) (lc_gt7 s) (lc_gjoin s) (lc_hasloop s) (lc_lgen s) (lc_lcount s) (lc_lpc s) (lc_lprev s) (lc_lown s) (lc_tailc s) (lc_tailn s) (lc_err s) (lc_reconnects s) (lc_redials s) (lc_ndials s) (lc_npub s).
 Definition set_elis (v : bool) (s : Lifecycle_state) : Lifecycle_state :=
-  LcState (lc_active s) (lc_api s) (lc_oeid s) (lc_shutdown s) (lc_rgen s) (lc_cancelled s) (lc_stopping s) (lc_sup s) (lc_st s) (lc_latch s) (lc_spc s) (lc_reid s) (lc_pdisc s) (lc_pt7 s) (lc_pups s) (lc_pclose s) (lc_stopreq s) (lc_gnotif s) (lc_hascur s) (lc_eid s) (lc_etd s) (lc_edone s) (lc_esock s) v (lc_eup s) (lc_estop1 s) (lc_estop2 s) (lc_ahold s) (lc_gsender s) (lc_grecv s) (lc_gproc s) (lc_gaccept s) (lc_glt s) (lc_gt7 s) (lc_gjoin s) (lc_hasloop s) (lc_lgen s) (lc_lcount s) (lc_lpc s) (lc_lprev s) (lc_lown s) (lc_tailc s) (lc_tailn s) (lc_err s) (lc_reconnects s) (lc_redials s) (lc_ndials s) (lc_npub s).
+  LcState (lc_active s) (lc_api s) (lc_oeid s) (lc_shutdown s) (lc_rgen s) (lc_cancelled s) (lc_stopping s) (lc_sup s) (lc_st s) (lc_latch s) (lc_spc s) (lc_reid s) (lc_pdisc s) (lc_pt7 s) (lc_pups s) (lc_pbehind s) (lc_pclose s) (lc_stopreq s) (lc_gnotif s) (lc_hascur s) (lc_eid s) (lc_etd s) (lc_edone s) (lc_esock s) v (lc_eup s) (lc_estop1 s) (lc_estop2 s) (lc_ahold s) (lc_gsender s) (lc_grecv s) (lc_gproc s) (lc_gaccept s) (lc_glt s) (lc_gt7 s) (lc_gjoin s) (lc_hasloop s) (lc_lgen s) (lc_lcount s) (lc_lpc s) (lc_lprev s) (lc_lown s) (lc_tailc s) (lc_tailn s) (lc_err s) (lc_reconnects s) (lc_redials s) (lc_ndials s) (lc_npub s).
 Definition set_eup (v : bool) (s : Lifecycle_state) : Lifecycle_state :=
-  LcState (lc_active s) (lc_api s) (lc_oeid s) (lc_shutdown s) (lc_rgen s) (lc_cancelled s) (lc_stopping s) (lc_sup s) (lc_st s) (lc_latch s) (lc_spc s) (lc_reid s) (lc_pdisc s) (lc_pt7 s) (lc_pups s) (lc_pclose s) (lc_stopreq s) (lc_gnotif s) (lc_hascur s) (lc_eid s) (lc_etd s) (lc_edone s) (lc_esock s) (lc_elis s) v (lc_estop1 s) (lc_estop2 s) (lc_ahold s) (lc_gsender s) (lc_grecv s) (lc_gproc s) (lc_gaccept s) (lc_glt s) (lc_gt7 s) (lc_gjoin s) (lc_hasloop s) (lc_lgen s) (lc_lcount s) (lc_lpc s) (lc_lprev s) (lc_lown s) (lc_tailc s) (lc_tailn s) (lc_err s) (lc_reconnects s) (lc_redials s) (lc_ndials s) (lc_npub s).
+  LcState (lc_active s) (lc_api s) (lc_oeid s) (lc_shutdown s) (lc_rgen s) (lc_cancelled s) (lc_stopping s) (lc_sup s) (lc_st s) (lc_latch s) (lc_spc s) (lc_reid s) (lc_pdisc s) (lc_pt7 s) (lc_pups s) (lc_pbehind s) (lc_pclose s) (lc_stopreq s) (lc_gnotif s) (lc_hascur s) (lc_eid s) (lc_etd s) (lc_edone s) (lc_esock s) (lc_elis s) v (lc_estop1 s) (lc_estop2 s) (lc_ahold s) (lc_gsender s) (lc_grecv s) (lc_gproc s) (lc_gaccept s) (lc_glt s) (lc_gt7 s) (lc_gjoin s) (lc_hasloop s) (lc_lgen s) (lc_lcount s) (lc_lpc s) (lc_lprev s) (lc_lown s) (lc_tailc s) (lc_tailn s) (lc_err s) (lc_reconnects s) (lc_redials s) (lc_ndials s) (lc_npub s).
 Definition set_estop1 (v : bool) (s : Lifecycle_state) : Lifecycle_state :=
-  LcState (lc_active s) (lc_api s) (lc_oeid s) (lc_shutdown s) (lc_rgen s) (lc_cancelled s) (lc_stopping s) (lc_sup s) (lc_st s) (lc_latch s) (lc_spc s) (lc_reid s) (lc_pdisc s) (lc_pt7 s) (lc_pups s) (lc_pclose s) (lc_stopreq s) (lc_gnotif s) (lc_hascur s) (lc_eid s) (lc_etd s) (lc_edone s) (lc_esock s) (lc_elis s) (lc_eup s) v (lc_estop2 s) (lc_ahold s) (lc_gsender s) (lc_grecv s) (lc_gproc s) (lc_gaccept s) (lc_glt s) (lc_gt7 s) (lc_gjoin s) (lc_hasloop s) (lc_lgen s) (lc_lcount s) (lc_lpc s) (lc_lprev s) (lc_lown s) (lc_tailc s) (lc_tailn s) (lc_err s) (lc_reconnects s) (lc_redials s) (lc_ndials s) (lc_npub s).
+  LcState (lc_active s) (lc_api s) (lc_oeid s) (lc_shutdown s) (lc_rgen s) (lc_cancelled s) (lc_stopping s) (lc_sup s) (lc_st s) (lc_latch s) (lc_spc s) (lc_reid s) (lc_pdisc s) (lc_pt7 s) (lc_pups s) (lc_pbehind s) (lc_pclose s) (lc_stopreq s) (lc_gnotif s) (lc_hascur s) (lc_eid s) (lc_etd s) (lc_edone s) (lc_esock s) (lc_elis s) (lc_eup s) v (lc_estop2 s) (lc_ahold s) (lc_gsender s) (lc_grecv s) (lc_gproc s) (lc_gaccept s) (lc_glt s) (lc_gt7 s) (lc_gjoin s) (lc_hasloop s) (lc_lgen s) (lc_lcount s) (lc_lpc s) (lc_lprev s) (lc_lown s) (lc_tailc s) (lc_tailn s) (lc_err s) (lc_reconnects s) (lc_redials s) (lc_ndials s) (lc_npub s).
 Definition set_estop2 (v : bool) (s : Lifecycle_state) : Lifecycle_state :=
-  LcState (lc_active s) (lc_api s) (lc_oeid s) (lc_shutdown s) (lc_rgen s) (lc_cancelled s) (lc_stopping s) (lc_sup s) (lc_st s) (lc_latch s) (lc_spc s) (lc_reid s) (lc_pdisc s) (lc_pt7 s) (lc_pups s) (lc_pclose s) (lc_stopreq s) (lc_gnotif s) (lc_hascur s) (lc_eid s) (lc_etd s) (lc_edone s) (lc_esock s) (lc_elis s) (lc_eup s) (lc_estop1 s) v (lc_ahold s) (lc_gsender s) (lc_grecv s) (lc_gproc s) (lc_gaccept s) (lc_glt s) (lc_gt7 s) (lc_gjoin s) (lc_hasloop s) (lc_lgen s) (lc_lcount s) (lc_lpc s) (lc_lprev s) (lc_lown s) (lc_tailc s) (lc_tailn s) (lc_err s) (lc_reconnects s) (lc_redials s) (lc_ndials s) (lc_npub s).
+  LcState (lc_active s) (lc_api s) (lc_oeid s) (lc_shutdown s) (lc_rgen s) (lc_cancelled s) (lc_stopping s) (lc_sup s) (lc_st s) (lc_latch s) (lc_spc s) (lc_reid s) (lc_pdisc s) (lc_pt7 s) (lc_pups s) (lc_pbehind s) (lc_pclose s) (lc_stopreq s) (lc_gnotif s) (lc_hascur s) (lc_eid s) (lc_etd s) (lc_edone s) (lc_esock s) (lc_elis s) (lc_eup s) (lc_estop1 s) v (lc_ahold s) (lc_gsender s) (lc_grecv s) (lc_gproc s) (lc_gaccept s) (lc_glt s) (lc_gt7 s) (lc_gjoin s) (lc_hasloop s) (lc_lgen s) (lc_lcount s) (lc_lpc s) (lc_lprev s) (lc_lown s) (lc_tailc s) (lc_tailn s) (lc_err s) (lc_reconnects s) (lc_redials s) (lc_ndials s) (lc_npub s).
 Definition set_ahold (v : bool) (s : Lifecycle_state) : Lifecycle_state :=
-  LcState (lc_active s) (lc_api s) (lc_oeid s) (lc_shutdown s) (lc_rgen s) (lc_cancelled s) (lc_stopping s) (lc_sup s) (lc_st s) (lc_latch s) (lc_spc s) (lc_reid s) (lc_pdisc s) (lc_pt7 s) (lc_pups s) (lc_pclose s) (lc_stopreq s) (lc_gnotif s) (lc_hascur s) (lc_eid s) (lc_etd s) (lc_edone s) (lc_esock s) (lc_elis s) (lc_eup s) (lc_estop1 s) (lc_estop2 s) v (lc_gsender s) (lc_grecv s) (lc_gproc s) (lc_gaccept s) (lc_glt s) (lc_gt7 s) (lc_gjoin s) (lc_hasloop s) (lc_lgen s) (lc_lcount s) (lc_lpc s) (lc_lprev s) (lc_lown s) (lc_tailc s) (lc_tailn s) (lc_err s) (lc_reconnects s) (lc_redials s) (lc_ndials s) (lc_npub s).
+  LcState (lc_active s) (lc_api s) (lc_oeid s) (lc_shutdown s) (lc_rgen s) (lc_cancelled s) (lc_stopping s) (lc_sup s) (lc_st s) (lc_latch s) (lc_spc s) (lc_reid s) (lc_pdisc s) (lc_pt7 s) (lc_pups s) (lc_pbehind s) (lc_pclose s) (lc_stopreq s) (lc_gnotif s) (lc_hascur s) (lc_eid s) (lc_etd s) (lc_edone s) (lc_esock s) (lc_elis s) (lc_eup s) (lc_estop1 s) (lc_estop2 s) v (lc_gsender s) (lc_grecv s) (lc_gproc s) (lc_gaccept s) (lc_glt s) (lc_gt7 s) (lc_gjoin s) (lc_hasloop s) (lc_lgen s) (lc_lcount s) (lc_lpc s) (lc_lprev s) (lc_lown s) (lc_tailc s) (lc_tailn s) (lc_err s) (lc_reconnects s) (lc_redials s) (lc_ndials s) (lc_npub s).
 Definition set_gsender (v : bool) (s : Lifecycle_state) : Lifecycle_state :=
-  LcState (lc_active s) (lc_api s) (lc_oeid s) (lc_shutdown s) (lc_rgen s) (lc_cancelled s) (lc_stopping s) (lc_sup s) (lc_st s) (lc_latch s) (lc_spc s) (lc_reid s) (lc_pdisc s) (lc_pt7 s) (lc_pups s) (lc_pclose s) (lc_stopreq s) (lc_gnotif s) (lc_hascur s) (lc_eid s) (lc_etd s) (lc_edone s) (lc_esock s) (lc_elis s) (lc_eup s) (lc_estop1 s) (lc_estop2 s) (lc_ahold s) v (lc_grecv s) (lc_gproc s) (lc_gaccept s) (lc_glt s) (lc_gt7 s) (lc_gjoin s) (lc_hasloop s) (lc_lgen s) (lc_lcount s) (lc_lpc s) (lc_lprev s) (lc_lown s) (lc_tailc s) (lc_tailn s) (lc_err s) (lc_reconnects s) (lc_redials s) (lc_ndials s) (lc_npub s).
+  LcState (lc_active s) (lc_api s) (lc_oeid s) (lc_shutdown s) (lc_rgen s) (lc_cancelled s) (lc_stopping s) (lc_sup s) (lc_st s) (lc_latch s) (lc_spc s) (lc_reid s) (lc_pdisc s) (lc_pt7 s) (lc_pups s) (lc_pbehind s) (lc_pclose s) (lc_stopreq s) (lc_gnotif s) (lc_hascur s) (lc_eid s) (lc_etd s) (lc_edone s) (lc_esock s) (lc_elis s) (lc_eup s) (lc_estop1 s) (lc_estop2 s) (lc_ahold s) v (lc_grecv s) (lc_gproc s) (lc_gaccept s) (lc_glt s) (lc_gt7 s) (lc_gjoin s) (lc_hasloop s) (lc_lgen s) (lc_lcount s) (lc_lpc s) (lc_lprev s) (lc_lown s) (lc_tailc s) (lc_tailn s) (lc_err s) (lc_reconnects s) (lc_redials s) (lc_ndials s) (lc_npub s).
 Definition set_grecv (v : bool) (s : Lifecycle_state) : Lifecycle_state :=
-  LcState (lc_active s) (lc_api s) (lc_oeid s) (lc_shutdown s) (lc_rgen s) (lc_cancelled s) (lc_stopping s) (lc_sup s) (lc_st s) (lc_latch s) (lc_spc s) (lc_reid s) (lc_pdisc s) (lc_pt7 s) (lc_pups s) (lc_pclose s) (lc_stopreq s) (lc_gnotif s) (lc_hascur s) (lc_eid s) (lc_etd s) (lc_edone s) (lc_esock s) (lc_elis s) (lc_eup s) (lc_estop1 s) (lc_estop2 s) (lc_ahold s) (lc_gsender s) v (lc_gproc s) (lc_gaccept s) (lc_glt s) (lc_gt7 s) (lc_gjoin s) (lc_hasloop s) (lc_lgen s) (lc_lcount s) (lc_lpc s) (lc_lprev s) (lc_lown s) (lc_tailc s) (lc_tailn s) (lc_err s) (lc_reconnects s) (lc_redials s) (lc_ndials s) (lc_npub s).
+  LcState (lc_active s) (lc_api s) (lc_oeid s) (lc_shutdown s) (lc_rgen s) (lc_cancelled s) (lc_stopping s) (lc_sup s) (lc_st s) (lc_latch s) (lc_spc s) (lc_reid s) (lc_pdisc s) (lc_pt7 s) (lc_pups s) (lc_pbehind s) (lc_pclose s) (lc_stopreq s) (lc_gnotif s) (lc_hascur s) (lc_eid s) (lc_etd s) (lc_edone s) (lc_esock s) (lc_elis s) (lc_eup s) (lc_estop1 s) (lc_estop2 s) (lc_ahold s) (lc_gsender s) v (lc_gproc s) (lc_gaccept s) (lc_glt s) (lc_gt7 s) (lc_gjoin s) (lc_hasloop s) (lc_lgen s) (lc_lcount s) (lc_lpc s) (lc_lprev s) (lc_lown s) (lc_tailc s) (lc_tailn s) (lc_err s) (lc_reconnects s) (lc_redials s) (lc_ndials s) (lc_npub s).
 Definition set_gproc (v : bool) (s : Lifecycle_state) : Lifecycle_state :=
-  LcState (lc_active s) (lc_api s) (lc_oeid s) (lc_shutdown s) (lc_rgen s) (lc_cancelled s) (lc_stopping s) (lc_sup s) (lc_st s) (lc_latch s) (lc_spc s) (lc_reid s) (lc_pdisc s) (lc_pt7 s) (lc_pups s) (lc_pclose s) (lc_stopreq s) (lc_gnotif s) (lc_hascur s) (lc_eid s) (lc_etd s) (lc_edone s) (lc_esock s) (lc_elis s) (lc_eup s) (lc_estop1 s) (lc_estop2 s) (lc_ahold s) (lc_gsender s) (lc_grecv s) v (lc_gaccept s) (lc_glt s) (lc_gt7 s) (lc_gjoin s) (lc_hasloop s) (lc_lgen s) (lc_lcount s) (lc_lpc s) (lc_lprev s) (lc_lown s) (lc_tailc s) (lc_tailn s) (lc_err s) (lc_reconnects s) (lc_redials s) (lc_ndials s) (lc_npub s).
+  LcState (lc_active s) (lc_api s) (lc_oeid s) (lc_shutdown s) (lc_rgen s) (lc_cancelled s) (lc_stopping s) (lc_sup s) (lc_st s) (lc_latch s) (lc_spc s) (lc_reid s) (lc_pdisc s) (lc_pt7 s) (lc_pups s) (lc_pbehind s) (lc_pclose s) (lc_stopreq s) (lc_gnotif s) (lc_hascur s) (lc_eid s) (lc_etd s) (lc_edone s) (lc_esock s) (lc_elis s) (lc_eup s) (lc_estop1 s) (lc_estop2 s) (lc_ahold s) (lc_gsender s) (lc_grecv s) v (lc_gaccept s) (lc_glt s) (lc_gt7 s) (lc_gjoin s) (lc_hasloop s) (lc_lgen s) (lc_lcount s) (lc_lpc s) (lc_lprev s) (lc_lown s) (lc_tailc s) (lc_tailn s) (lc_err s) (lc_reconnects s) (lc_redials s) (lc_ndials s) (lc_npub s).
 Definition set_gaccept (v : bool) (s : Lifecycle_state) : Lifecycle_state :=
-  LcState (lc_active s) (lc_api s) (lc_oeid s) (lc_shutdown s) (lc_rgen s) (lc_cancelled s) (lc_stopping s) (lc_sup s) (lc_st s) (lc_latch s) (lc_spc s) (lc_reid s) (lc_pdisc s) (lc_pt7 s) (lc_pups s) (lc_pclose s) (lc_stopreq s) (lc_gnotif s) (lc_hascur s) (lc_eid s) (lc_etd s) (lc_edone s) (lc_esock s) (lc_elis s) (lc_eup s) (lc_estop1 s) (lc_estop2 s) (lc_ahold s) (lc_gsender s) (lc_grecv s) (lc_gproc s) v (lc_glt s) (lc_gt7 s) (lc_gjoin s) (lc_hasloop s) (lc_lgen s) (lc_lcount s) (lc_lpc s) (lc_lprev s) (lc_lown s) (lc_tailc s) (lc_tailn s) (lc_err s) (lc_reconnects s) (lc_redials s) (lc_ndials s) (lc_npub s).
+  LcState (lc_active s) (lc_api s) (lc_oeid s) (lc_shutdown s) (lc_rgen s) (lc_cancelled s) (lc_stopping s) (lc_sup s) (lc_st s) (lc_latch s) (lc_spc s) (lc_reid s) (lc_pdisc s) (lc_pt7 s) (lc_pups s) (lc_pbehind s) (lc_pclose s) (lc_stopreq s) (lc_gnotif s) (lc_hascur s) (lc_eid s) (lc_etd s) (lc_edone s) (lc_esock s) (lc_elis s) (lc_eup s) (lc_estop1 s) (lc_estop2 s) (lc_ahold s) (lc_gsender s) (lc_grecv s) (lc_gproc s) v (lc_glt s) (lc_gt7 s) (lc_gjoin s) (lc_hasloop s) (lc_lgen s) (lc_lcount s) (lc_lpc s) (lc_lprev s) (lc_lown s) (lc_tailc s) (lc_tailn s) (lc_err s) (lc_reconnects s) (lc_redials s) (lc_ndials s) (lc_npub s).
 Definition set_glt (v : nat) (s : Lifecycle_state) : Lifecycle_state :=
-  LcState (lc_active s) (lc_api s) (lc_oeid s) (lc_shutdown s) (lc_rgen s) (lc_cancelled s) (lc_stopping s) (lc_sup s) (lc_st s) (lc_latch s) (lc_spc s) (lc_reid s) (lc_pdisc s) (lc_pt7 s) (lc_pups s) (lc_pclose s) (lc_stopreq s) (lc_gnotif s) (lc_hascur s) (lc_eid s) (lc_etd s) (lc_edone s) (lc_esock s) (lc_elis s) (lc_eup s) (lc_estop1 s) (lc_estop2 s) (lc_ahold s) (lc_gsender s) (lc_grecv s) (lc_gproc s) (lc_gaccept s) v (lc_gt7 s) (lc_gjoin s) (lc_hasloop s) (lc_lgen s) (lc_lcount s) (lc_lpc s) (lc_lprev s) (lc_lown s) (lc_tailc s) (lc_tailn s) (lc_err s) (lc_reconnects s) (lc_redials s) (lc_ndials s) (lc_npub s).
+  LcState (lc_active s) (lc_api s) (lc_oeid s) (lc_shutdown s) (lc_rgen s) (lc_cancelled s) (lc_stopping s) (lc_sup s) (lc_st s) (lc_latch s) (lc_spc s) (lc_reid s) (lc_pdisc s) (lc_pt7 s) (lc_pups s) (lc_pbehind s) (lc_pclose s) (lc_stopreq s) (lc_gnotif s) (lc_hascur s) (lc_eid s) (lc_etd s) (lc_edone s) (lc_esock s) (lc_elis s) (lc_eup s) (lc_estop1 s) (lc_estop2 s) (lc_ahold s) (lc_gsender s) (lc_grecv s) (lc_gproc s) (lc_gaccept s) v (lc_gt7 s) (lc_gjoin s) (lc_hasloop s) (lc_lgen s) (lc_lcount s) (lc_lpc s) (lc_lprev s) (lc_lown s) (lc_tailc s) (lc_tailn s) (lc_err s) (lc_reconnects s) (lc_redials s) (lc_ndials s) (lc_npub s).
 Definition set_gt7 (v : nat) (s : Lifecycle_state) : Lifecycle_state :=
-  LcState (lc_active s) (lc_api s) (lc_oeid s) (lc_shutdown s) (lc_rgen s) (lc_cancelled s) (lc_stopping s) (lc_sup s) (lc_st s) (lc_latch s) (lc_spc s) (lc_reid s) (lc_pdisc s) (lc_pt7 s) (lc_pups s) (lc_pclose s) (lc_stopreq s) (lc_gnotif s) (lc_hascur s) (lc_eid s) (lc_etd s) (lc_edone s) (lc_esock s) (lc_elis s) (lc_eup s) (lc_estop1 s) (lc_estop2 s) (lc_ahold s) (lc_gsender s) (lc_grecv s) (lc_gproc s) (lc_gaccept s) (lc_glt s) v (lc_gjoin s) (lc_hasloop s) (lc_lgen s) (lc_lcount s) (lc_lpc s) (lc_lprev s) (lc_lown s) (lc_tailc s) (lc_tailn s) (lc_err s) (lc_reconnects s) (lc_redials s) (lc_ndials s) (lc_npub s).
+  LcState (lc_active s) (lc_api s) (lc_oeid s) (lc_shutdown s) (lc_rgen s) (lc_cancelled s) (lc_stopping s) (lc_sup s) (lc_st s) (lc_latch s) (lc_spc s) (lc_reid s) (lc_pdisc s) (lc_pt7 s) (lc_pups s) (lc_pbehind s) (lc_pclose s) (lc_stopreq s) (lc_gnotif s) (lc_hascur s) (lc_eid s) (lc_etd s) (lc_edone s) (lc_esock s) (lc_elis s) (lc_eup s) (lc_estop1 s) (lc_estop2 s) (lc_ahold s) (lc_gsender s) (lc_grecv s) (lc_gproc s) (lc_gaccept s) (lc_glt s) v (lc_gjoin s) (lc_hasloop s) (lc_lgen s) (lc_lcount s) (lc_lpc s) (lc_lprev s) (lc_lown s) (lc_tailc s) (lc_tailn s) (lc_err s) (lc_reconnects s) (lc_redials s) (lc_ndials s) (lc_npub s).
 Definition set_gjoin (v : bool) (s : Lifecycle_state) : Lifecycle_state :=
-  LcState (lc_active s) (lc_api s) (lc_oeid s) (lc_shutdown s) (lc_rgen s) (lc_cancelled s) (lc_stopping s) (lc_sup s) (lc_st s) (lc_latch s) (lc_spc s) (lc_reid s) (lc_pdisc s) (lc_pt7 s) (lc_pups s) (lc_pclose s) (lc_stopreq s) (lc_gnotif s) (lc_hascur s) (lc_eid s) (lc_etd s) (lc_edone s) (lc_esock s) (lc_elis s) (lc_eup s) (lc_estop1 s) (lc_estop2 s) (lc_ahold s) (lc_gsender s) (lc_grecv s) (lc_gproc s) (lc_gaccept s) (lc_glt s) (lc_gt7 s) v (lc_hasloop s) (lc_lgen s) (lc_lcount s) (lc_lpc s) (lc_lprev s) (lc_lown s) (lc_tailc s) (lc_tailn s) (lc_err s) (lc_reconnects s) (lc_redials s) (lc_ndials s) (lc_npub s).
+  LcState (lc_active s) (lc_api s) (lc_oeid s) (lc_shutdown s) (lc_rgen s) (lc_cancelled s) (lc_stopping s) (lc_sup s) (lc_st s) (lc_latch s) (lc_spc s) (lc_reid s) (lc_pdisc s) (lc_pt7 s) (lc_pups s) (lc_pbehind s) (lc_pclose s) (lc_stopreq s) (lc_gnotif s) (lc_hascur s) (lc_eid s) (lc_etd s) (lc_edone s) (lc_esock s) (lc_elis s) (lc_eup s) (lc_estop1 s) (lc_estop2 s) (lc_ahold s) (lc_gsender s) (lc_grecv s) (lc_gproc s) (lc_gaccept s) (lc_glt s) (lc_gt7 s) v (lc_hasloop s) (lc_lgen s) (lc_lcount s) (lc_lpc s) (lc_lprev s) (lc_lown s) (lc_tailc s) (lc_tailn s) (lc_err s) (lc_reconnects s) (lc_redials s) (lc_ndials s) (lc_npub s).
 Definition set_hasloop (v : bool) (s : Lifecycle_state) : Lifecycle_state :=
-  LcState (lc_active s) (lc_api s) (lc_oeid s) (lc_shutdown s) (lc_rgen s) (lc_cancelled s) (lc_stopping s) (lc_sup s) (lc_st s) (lc_latch s) (lc_spc s) (lc_reid s) (lc_pdisc s) (lc_pt7 s) (lc_pups s) (lc_pclose s) (lc_stopreq s) (lc_gnotif s) (lc_hascur s) (lc_eid s) (lc_etd s) (lc_edone s) (lc_esock s) (lc_elis s) (lc_eup s) (lc_estop1 s) (lc_estop2 s) (lc_ahold s) (lc_gsender s) (lc_grecv s) (lc_gproc s) (lc_gaccept s) (lc_glt s) (lc_gt7 s) (lc_gjoin s) v (lc_lgen s) (lc_lcount s) (lc_lpc s) (lc_lprev s) (lc_lown s) (lc_tailc s) (lc_tailn s) (lc_err s) (lc_reconnects s) (lc_redials s) (lc_ndials s) (lc_npub s).
+  LcState (lc_active s) (lc_api s) (lc_oeid s) (lc_shutdown s) (lc_rgen s) (lc_cancelled s) (lc_stopping s) (lc_sup s) (lc_st s) (lc_latch s) (lc_spc s) (lc_reid s) (lc_pdisc s) (lc_pt7 s) (lc_pups s) (lc_pbehind s) (lc_pclose s) (lc_stopreq s) (lc_gnotif s) (lc_hascur s) (lc_eid s) (lc_etd s) (lc_edone s) (lc_esock s) (lc_elis s) (lc_eup s) (lc_estop1 s) (lc_estop2 s) (lc_ahold s) (lc_gsender s) (lc_grecv s) (lc_gproc s) (lc_gaccept s) (lc_glt s) (lc_gt7 s) (lc_gjoin s) v (lc_lgen s) (lc_lcount s) (lc_lpc s) (lc_lprev s) (lc_lown s) (lc_tailc s) (lc_tailn s) (lc_err s) (lc_reconnects s) (lc_redials s) (lc_ndials s) (lc_npub s).
 Definition set_lgen (v : nat) (s : Lifecycle_state) : Lifecycle_state :=
-  LcState (lc_active s) (lc_api s) (lc_oeid s) (lc_shutdown s) (lc_rgen s) (lc_cancelled s) (lc_stopping s) (lc_sup s) (lc_st s) (lc_latch s) (lc_spc s) (lc_reid s) (lc_pdisc s) (lc_pt7 s) (lc_pups s) (lc_pclose s) (lc_stopreq s) (lc_gnotif s) (lc_hascur s) (lc_eid s) (lc_etd s) (lc_edone s) (lc_esock s) (lc_elis s) (lc_eup s) (lc_estop1 s) (lc_estop2 s) (lc_ahold s) (lc_gsender s) (lc_grecv s) (lc_gproc s) (lc_gaccept s) (lc_glt s) (lc_gt7 s) (lc_gjoin s) (lc_hasloop s) v (lc_lcount s) (lc_lpc s) (lc_lprev s) (lc_lown s) (lc_tailc s) (lc_tailn s) (lc_err s) (lc_reconnects s) (lc_redials s) (lc_ndials s) (lc_npub s).
+  LcState (lc_active s) (lc_api s) (lc_oeid s) (lc_shutdown s) (lc_rgen s) (lc_cancelled s) (lc_stopping s) (lc_sup s) (lc_st s) (lc_latch s) (lc_spc s) (lc_reid s) (lc_pdisc s) (lc_pt7 s) (lc_pups s) (lc_pbehind s) (lc_pclose s) (lc_stopreq s) (lc_gnotif s) (lc_hascur s) (lc_eid s) (lc_etd s) (lc_edone s) (lc_esock s) (lc_elis s) (lc_eup s) (lc_estop1 s) (lc_estop2 s) (lc_ahold s) (lc_gsender s) (lc_grecv s) (lc_gproc s) (lc_gaccept s) (lc_glt s) (lc_gt7 s) (lc_gjoin s) (lc_hasloop s) v (lc_lcount s) (lc_lpc s) (lc_lprev s) (lc_lown s) (lc_tailc s) (lc_tailn s) (lc_err s) (lc_reconnects s) (lc_redials s) (lc_ndials s) (lc_npub s).
 Definition set_lcount (v : bool) (s : Lifecycle_state) : Lifecycle_state :=
-  LcState (lc_active s) (lc_api s) (lc_oeid s) (lc_shutdown s) (lc_rgen s) (lc_cancelled s) (lc_stopping s) (lc_sup s) (lc_st s) (lc_latch s) (lc_spc s) (lc_reid s) (lc_pdisc s) (lc_pt7 s) (lc_pups s) (lc_pclose s) (lc_stopreq s) (lc_gnotif s) (lc_hascur s) (lc_eid s) (lc_etd s) (lc_edone s) (lc_esock s) (lc_elis s) (lc_eup s) (lc_estop1 s) (lc_estop2 s) (lc_ahold s) (lc_gsender s) (lc_grecv s) (lc_gproc s) (lc_gaccept s) (lc_glt s) (lc_gt7 s) (lc_gjoin s) (lc_hasloop s) (lc_lgen s) v (lc_lpc s) (lc_lprev s) (lc_lown s) (lc_tailc s) (lc_tailn s) (lc_err s) (lc_reconnects s) (lc_redials s) (lc_ndials s) (lc_npub s).
+  LcState (lc_active s) (lc_api s) (lc_oeid s) (lc_shutdown s) (lc_rgen s) (lc_cancelled s) (lc_stopping s) (lc_sup s) (lc_st s) (lc_latch s) (lc_spc s) (lc_reid s) (lc_pdisc s) (lc_pt7 s) (lc_pups s) (lc_pbehind s) (lc_pclose s) (lc_stopreq s) (lc_gnotif s) (lc_hascur s) (lc_eid s) (lc_etd s) (lc_edone s) (lc_esock s) (lc_elis s) (lc_eup s) (lc_estop1 s) (lc_estop2 s) (lc_ahold s) (lc_gsender s) (lc_grecv s) (lc_gproc s) (lc_gaccept s) (lc_glt s) (lc_gt7 s) (lc_gjoin s) (lc_hasloop s) (lc_lgen s) v (lc_lpc s) (lc_lprev s) (lc_lown s) (lc_tailc s) (lc_tailn s) (lc_err s) (lc_reconnects s) (lc_redials s) (lc_ndials s) (lc_npub s).
 Definition set_lpc (v : lc_loop_pc) (s : Lifecycle_state) : Lifecycle_state :=
-  LcState (lc_active s) (lc_api s) (lc_oeid s) (lc_shutdown s) (lc_rgen s) (lc_cancelled s) (lc_stopping s) (lc_sup s) (lc_st s) (lc_latch s) (lc_spc s) (lc_reid s) (lc_pdisc s) (lc_pt7 s) (lc_pups s) (lc_pclose s) (lc_stopreq s) (lc_gnotif s) (lc_hascur s) (lc_eid s) (lc_etd s) (lc_edone s) (lc_esock s) (lc_elis s) (lc_eup s) (lc_estop1 s) (lc_estop2 s) (lc_ahold s) (lc_gsender s) (lc_grecv s) (lc_gproc s) (lc_gaccept s) (lc_glt s) (lc_gt7 s) (lc_gjoin s) (lc_hasloop s) (lc_lgen s) (lc_lcount s) v (lc_lprev s) (lc_lown s) (lc_tailc s) (lc_tailn s) (lc_err s) (lc_reconnects s) (lc_redials s) (lc_ndials s) (lc_npub s).
+  LcState (lc_active s) (lc_api s) (lc_oeid s) (lc_shutdown s) (lc_rgen s) (lc_cancelled s) (lc_stopping s) (lc_sup s) (lc_st s) (lc_latch s) (lc_spc s) (lc_reid s) (lc_pdisc s) (lc_pt7 s) (lc_pups s) (lc_pbehind s) (lc_pclose s) (lc_stopreq s) (lc_gnotif s) (lc_hascur s) (lc_eid s) (lc_etd s) (lc_edone s) (lc_esock s) (lc_elis s) (lc_eup s) (lc_estop1 s) (lc_estop2 s) (lc_ahold s) (lc_gsender s) (lc_grecv s) (lc_gproc s) (lc_gaccept s) (lc_glt s) (lc_gt7 s) (lc_gjoin s) (lc_hasloop s) (lc_lgen s) (lc_lcount s) v (lc_lprev s) (lc_lown s) (lc_tailc s) (lc_tailn s) (lc_err s) (lc_reconnects s) (lc_redials s) (lc_ndials s) (lc_npub s).
 Definition set_lprev (v : nat) (s : Lifecycle_state) : Lifecycle_state :=
-  LcState (lc_active s) (lc_api s) (lc_oeid s) (lc_shutdown s) (lc_rgen s) (lc_cancelled s) (lc_stopping s) (lc_sup s) (lc_st s) (lc_latch s) (lc_spc s) (lc_reid s) (lc_pdisc s) (lc_pt7 s) (lc_pups s) (lc_pclose s) (lc_stopreq s) (lc_gnotif s) (lc_hascur s) (lc_eid s) (lc_etd s) (lc_edone s) (lc_esock s) (lc_elis s) (lc_eup s) (lc_estop1 s) (lc_estop2 s) (lc_ahold s) (lc_gsender s) (lc_grecv s) (lc_gproc s) (lc_gaccept s) (lc_glt s) (lc_gt7 s) (lc_gjoin s) (lc_hasloop s) (lc_lgen s) (lc_lcount s) (lc_lpc s) v (lc_lown s) (lc_tailc s) (lc_tailn s) (lc_err s) (lc_reconnects s) (lc_redials s) (lc_ndials s) (lc_npub s).
+  LcState (lc_active s) (lc_api s) (lc_oeid s) (lc_shutdown s) (lc_rgen s) (lc_cancelled s) (lc_stopping s) (lc_sup s) (lc_st s) (lc_latch s) (lc_spc s) (lc_reid s) (lc_pdisc s) (lc_pt7 s) (lc_pups s) (lc_pbehind s) (lc_pclose s) (lc_stopreq s) (lc_gnotif s) (lc_hascur s) (lc_eid s) (lc_etd s) (lc_edone s) (lc_esock s) (lc_elis s) (lc_eup s) (lc_estop1 s) (lc_estop2 s) (lc_ahold s) (lc_gsender s) (lc_grecv s) (lc_gproc s) (lc_gaccept s) (lc_glt s) (lc_gt7 s) (lc_gjoin s) (lc_hasloop s) (lc_lgen s) (lc_lcount s) (lc_lpc s) v (lc_lown s) (lc_tailc s) (lc_tailn s) (lc_err s) (lc_reconnects s) (lc_redials s) (lc_ndials s) (lc_npub s).
 Definition set_lown (v : nat) (s : Lifecycle_state) : Lifecycle_state :=
-  LcState (lc_active s) (lc_api s) (lc_oeid s) (lc_shutdown s) (lc_rgen s) (lc_cancelled s) (lc_stopping s) (lc_sup s) (lc_st s) (lc_latch s) (lc_spc s) (lc_reid s) (lc_pdisc s) (lc_pt7 s) (lc_pups s) (lc_pclose s) (lc_stopreq s) (lc_gnotif s) (lc_hascur s) (lc_eid s) (lc_etd s) (lc_edone s) (lc_esock s) (lc_elis s) (lc_eup s) (lc_estop1 s) (lc_estop2 s) (lc_ahold s) (lc_gsender s) (lc_grecv s) (lc_gproc s) (lc_gaccept s) (lc_glt s) (lc_gt7 s) (lc_gjoin s) (lc_hasloop s) (lc_lgen s) (lc_lcount s) (lc_lpc s) (lc_lprev s) v (lc_tailc s) (lc_tailn s) (lc_err s) (lc_reconnects s) (lc_redials s) (lc_ndials s) (lc_npub s).
+  LcState (lc_active s) (lc_api s) (lc_oeid s) (lc_shutdown s) (lc_rgen s) (lc_cancelled s) (lc_stopping s) (lc_sup s) (lc_st s) (lc_latch s) (lc_spc s) (lc_reid s) (lc_pdisc s) (lc_pt7 s) (lc_pups s) (lc_pbehind s) (lc_pclose s) (lc_stopreq s) (lc_gnotif s) (lc_hascur s) (lc_eid s) (lc_etd s) (lc_edone s) (lc_esock s) (lc_elis s) (lc_eup s) (lc_estop1 s) (lc_estop2 s) (lc_ahold s) (lc_gsender s) (lc_grecv s) (lc_gproc s) (lc_gaccept s) (lc_glt s) (lc_gt7 s) (lc_gjoin s) (lc_hasloop s) (lc_lgen s) (lc_lcount s) (lc_lpc s) (lc_lprev s) v (lc_tailc s) (lc_tailn s) (lc_err s) (lc_reconnects s) (lc_redials s) (lc_ndials s) (lc_npub s).
 Definition set_tailc (v : nat) (s : Lifecycle_state) : Lifecycle_state :=
-  LcState (lc_active s) (lc_api s) (lc_oeid s) (lc_shutdown s) (lc_rgen s) (lc_cancelled s) (lc_stopping s) (lc_sup s) (lc_st s) (lc_latch s) (lc_spc s) (lc_reid s) (lc_pdisc s) (lc_pt7 s) (lc_pups s) (lc_pclose s) (lc_stopreq s) (lc_gnotif s) (lc_hascur s) (lc_eid s) (lc_etd s) (lc_edone s) (lc_esock s) (lc_elis s) (lc_eup s) (lc_estop1 s) (lc_estop2 s) (lc_ahold s) (lc_gsender s) (lc_grecv s) (lc_gproc s) (lc_gaccept s) (lc_glt s) (lc_gt7 s) (lc_gjoin s) (lc_hasloop s) (lc_lgen s) (lc_lcount s) (lc_lpc s) (lc_lprev s) (lc_lown s) v (lc_tailn s) (lc_err s) (lc_reconnects s) (lc_redials s) (lc_ndials s) (lc_npub s).
+  LcState (lc_active s) (lc_api s) (lc_oeid s) (lc_shutdown s) (lc_rgen s) (lc_cancelled s) (lc_stopping s) (lc_sup s) (lc_st s) (lc_latch s) (lc_spc s) (lc_reid s) (lc_pdisc s) (lc_pt7 s) (lc_pups s) (lc_pbehind s) (lc_pclose s) (lc_stopreq s) (lc_gnotif s) (lc_hascur s) (lc_eid s) (lc_etd s) (lc_edone s) (lc_esock s) (lc_elis s) (lc_eup s) (lc_estop1 s) (lc_estop2 s) (lc_ahold s) (lc_gsender s) (lc_grecv s) (lc_gproc s) (lc_gaccept s) (lc_glt s) (lc_gt7 s) (lc_gjoin s) (lc_hasloop s) (lc_lgen s) (lc_lcount s) (lc_lpc s) (lc_lprev s) (lc_lown s) v (lc_tailn s) (lc_err s) (lc_reconnects s) (lc_redials s) (lc_ndials s) (lc_npub s).
 Definition set_tailn (v : nat) (s : Lifecycle_state) : Lifecycle_state :=
-  LcState (lc_active s) (lc_api s) (lc_oeid s) (lc_shutdown s) (lc_rgen s) (lc_cancelled s) (lc_stopping s) (lc_sup s) (lc_st s) (lc_latch s) (lc_spc s) (lc_reid s) (lc_pdisc s) (lc_pt7 s) (lc_pups s) (lc_pclose s) (lc_stopreq s) (lc_gnotif s) (lc_hascur s) (lc_eid s) (lc_etd s) (lc_edone s) (lc_esock s) (lc_elis s) (lc_eup s) (lc_estop1 s) (lc_estop2 s) (lc_ahold s) (lc_gsender s) (lc_grecv s) (lc_gproc s) (lc_gaccept s) (lc_glt s) (lc_gt7 s) (lc_gjoin s) (lc_hasloop s) (lc_lgen s) (lc_lcount s) (lc_lpc s) (lc_lprev s) (lc_lown s) (lc_tailc s) v (lc_err s) (lc_reconnects s) (lc_redials s) (lc_ndials s) (lc_npub s).
+  LcState (lc_active s) (lc_api s) (lc_oeid s) (lc_shutdown s) (lc_rgen s) (lc_cancelled s) (lc_stopping s) (lc_sup s) (lc_st s) (lc_latch s) (lc_spc s) (lc_reid s) (lc_pdisc s) (lc_pt7 s) (lc_pups s) (lc_pbehind s) (lc_pclose s) (lc_stopreq s) (lc_gnotif s) (lc_hascur s) (lc_eid s) (lc_etd s) (lc_edone s) (lc_esock s) (lc_elis s) (lc_eup s) (lc_estop1 s) (lc_estop2 s) (lc_ahold s) (lc_gsender s) (lc_grecv s) (lc_gproc s) (lc_gaccept s) (lc_glt s) (lc_gt7 s) (lc_gjoin s) (lc_hasloop s) (lc_lgen s) (lc_lcount s) (lc_lpc s) (lc_lprev s) (lc_lown s) (lc_tailc s) v (lc_err s) (lc_reconnects s) (lc_redials s) (lc_ndials s) (lc_npub s).
 Definition set_err (v : bool) (s : Lifecycle_state) : Lifecycle_state :=
-  LcState (lc_active s) (lc_api s) (lc_oeid s) (lc_shutdown s) (lc_rgen s) (lc_cancelled s) (lc_stopping s) (lc_sup s) (lc_st s) (lc_latch s) (lc_spc s) (lc_reid s) (lc_pdisc s) (lc_pt7 s) (lc_pups s) (lc_pclose s) (lc_stopreq s) (lc_gnotif s) (lc_hascur s) (lc_eid s) (lc_etd s) (lc_edone s) (lc_esock s) (lc_elis s) (lc_eup s) (lc_estop1 s) (lc_estop2 s) (lc_ahold s) (lc_gsender s) (lc_grecv s) (lc_gproc s) (lc_gaccept s) (lc_glt s) (lc_gt7 s) (lc_gjoin s) (lc_hasloop s) (lc_lgen s) (lc_lcount s) (lc_lpc s) (lc_lprev s) (lc_lown s) (lc_tailc s) (lc_tailn s) v (lc_reconnects s) (lc_redials s) (lc_ndials s) (lc_npub s).
+  LcState (lc_active s) (lc_api s) (lc_oeid s) (lc_shutdown s) (lc_rgen s) (lc_cancelled s) (lc_stopping s) (lc_sup s) (lc_st s) (lc_latch s) (lc_spc s) (lc_reid s) (lc_pdisc s) (lc_pt7 s) (lc_pups s) (lc_pbehind s) (lc_pclose s) (lc_stopreq s) (lc_gnotif s) (lc_hascur s) (lc_eid s) (lc_etd s) (lc_edone s) (lc_esock s) (lc_elis s) (lc_eup s) (lc_estop1 s) (lc_estop2 s) (lc_ahold s) (lc_gsender s) (lc_grecv s) (lc_gproc s) (lc_gaccept s) (lc_glt s) (lc_gt7 s) (lc_gjoin s) (lc_hasloop s) (lc_lgen s) (lc_lcount s) (lc_lpc s) (lc_lprev s) (lc_lown s) (lc_tailc s) (lc_tailn s) v (lc_reconnects s) (lc_redials s) (lc_ndials s) (lc_npub s).
 Definition set_reconnects (v : nat) (s : Lifecycle_state) : Lifecycle_state :=
-  LcState (lc_active s) (lc_api s) (lc_oeid s) (lc_shutdown s) (lc_rgen s) (lc_cancelled s) (lc_stopping s) (lc_sup s) (lc_st s) (lc_latch s) (lc_spc s) (lc_reid s) (lc_pdisc s) (lc_pt7 s) (lc_pups s) (lc_pclose s) (lc_stopreq s) (lc_gnotif s) (lc_hascur s) (lc_eid s) (lc_etd s) (lc_edone s) (lc_esock s) (lc_elis s) (lc_eup s) (lc_estop1 s) (lc_estop2 s) (lc_ahold s) (lc_gsender s) (lc_grecv s) (lc_gproc s) (lc_gaccept s) (lc_glt s) (lc_gt7 s) (lc_gjoin s) (lc_hasloop s) (lc_lgen s) (lc_lcount s) (lc_lpc s) (lc_lprev s) (lc_lown s) (lc_tailc s) (lc_tailn s) (lc_err s) v (lc_redials s) (lc_ndials s) (lc_npub s).
+  LcState (lc_active s) (lc_api s) (lc_oeid s) (lc_shutdown s) (lc_rgen s) (lc_cancelled s) (lc_stopping s) (lc_sup s) (lc_st s) (lc_latch s) (lc_spc s) (lc_reid s) (lc_pdisc s) (lc_pt7 s) (lc_pups s) (lc_pbehind s) (lc_pclose s) (lc_stopreq s) (lc_gnotif s) (lc_hascur s) (lc_eid s) (lc_etd s) (lc_edone s) (lc_esock s) (lc_elis s) (lc_eup s) (lc_estop1 s) (lc_estop2 s) (lc_ahold s) (lc_gsender s) (lc_grecv s) (lc_gproc s) (lc_gaccept s) (lc_glt s) (lc_gt7 s) (lc_gjoin s) (lc_hasloop s) (lc_lgen s) (lc_lcount s) (lc_lpc s) (lc_lprev s) (lc_lown s) (lc_tailc s) (lc_tailn s) (lc_err s) v (lc_redials s) (lc_ndials s) (lc_npub s).
 Definition set_redials (v : nat) (s : Lifecycle_state) : Lifecycle_state :=
-  LcState (lc_active s) (lc_api s) (lc_oeid s) (lc_shutdown s) (lc_rgen s) (lc_cancelled s) (lc_stopping s) (lc_sup s) (lc_st s) (lc_latch s) (lc_spc s) (lc_reid s) (lc_pdisc s) (lc_pt7 s) (lc_pups s) (lc_pclose s) (lc_stopreq s) (lc_gnotif s) (lc_hascur s) (lc_eid s) (lc_etd s) (lc_edone s) (lc_esock s) (lc_elis s) (lc_eup s) (lc_estop1 s) (lc_estop2 s) (lc_ahold s) (lc_gsender s) (lc_grecv s) (lc_gproc s) (lc_gaccept s) (lc_glt s) (lc_gt7 s) (lc_gjoin s) (lc_hasloop s) (lc_lgen s) (lc_lcount s) (lc_lpc s) (lc_lprev s) (lc_lown s) (lc_tailc s) (lc_tailn s) (lc_err s) (lc_reconnects s) v (lc_ndials s) (lc_npub s).
+  LcState (lc_active s) (lc_api s) (lc_oeid s) (lc_shutdown s) (lc_rgen s) (lc_cancelled s) (lc_stopping s) (lc_sup s) (lc_st s) (lc_latch s) (lc_spc s) (lc_reid s) (lc_pdisc s) (lc_pt7 s) (lc_pups s) (lc_pbehind s) (lc_pclose s) (lc_stopreq s) (lc_gnotif s) (lc_hascur s) (lc_eid s) (lc_etd s) (lc_edone s) (lc_esock s) (lc_elis s) (lc_eup s) (lc_estop1 s) (lc_estop2 s) (lc_ahold s) (lc_gsender s) (lc_grecv s) (lc_gproc s) (lc_gaccept s) (lc_glt s) (lc_gt7 s) (lc_gjoin s) (lc_hasloop s) (lc_lgen s) (lc_lcount s) (lc_lpc s) (lc_lprev s) (lc_lown s) (lc_tailc s) (lc_tailn s) (lc_err s) (lc_reconnects s) v (lc_ndials s) (lc_npub s).
 Definition set_ndials (v : nat) (s : Lifecycle_state) : Lifecycle_state :=
-  LcState (lc_active s) (lc_api s) (lc_oeid s) (lc_shutdown s) (lc_rgen s) (lc_cancelled s) (lc_stopping s) (lc_sup s) (lc_st s) (lc_latch s) (lc_spc s) (lc_reid s) (lc_pdisc s) (lc_pt7 s) (lc_pups s) (lc_pclose s) (lc_stopreq s) (lc_gnotif s) (lc_hascur s) (lc_eid s) (lc_etd s) (lc_edone s) (lc_esock s) (lc_elis s) (lc_eup s) (lc_estop1 s) (lc_estop2 s) (lc_ahold s) (lc_gsender s) (lc_grecv s) (lc_gproc s) (lc_gaccept s) (lc_glt s) (lc_gt7 s) (lc_gjoin s) (lc_hasloop s) (lc_lgen s) (lc_lcount s) (lc_lpc s) (lc_lprev s) (lc_lown s) (lc_tailc s) (lc_tailn s) (lc_err s) (lc_reconnects s) (lc_redials s) v (lc_npub s).
+  LcState (lc_active s) (lc_api s) (lc_oeid s) (lc_shutdown s) (lc_rgen s) (lc_cancelled s) (lc_stopping s) (lc_sup s) (lc_st s) (lc_latch s) (lc_spc s) (lc_reid s) (lc_pdisc s) (lc_pt7 s) (lc_pups s) (lc_pbehind s) (lc_pclose s) (lc_stopreq s) (lc_gnotif s) (lc_hascur s) (lc_eid s) (lc_etd s) (lc_edone s) (lc_esock s) (lc_elis s) (lc_eup s) (lc_estop1 s) (lc_estop2 s) (lc_ahold s) (lc_gsender s) (lc_grecv s) (lc_gproc s) (lc_gaccept s) (lc_glt s) (lc_gt7 s) (lc_gjoin s) (lc_hasloop s) (lc_lgen s) (lc_lcount s) (lc_lpc s) (lc_lprev s) (lc_lown s) (lc_tailc s) (lc_tailn s) (lc_err s) (lc_reconnects s) (lc_redials s) v (lc_npub s).
 Definition set_npub (v : nat) (s : Lifecycle_state) : Lifecycle_state :=
-  LcState (lc_active s) (lc_api s) (lc_oeid s) (lc_shutdown s) (lc_rgen s) (lc_cancelled s) (lc_stopping s) (lc_sup s) (lc_st s) (lc_latch s) (lc_spc s) (lc_reid s) (lc_pdisc s) (lc_pt7 s) (lc_pups s) (lc_pclose s) (lc_stopreq s) (lc_gnotif s) (lc_hascur s) (lc_eid s) (lc_etd s) (lc_edone s) (lc_esock s) (lc_elis s) (lc_eup s) (lc_estop1 s) (lc_estop2 s) (lc_ahold s) (lc_gsender s) (lc_grecv s) (lc_gproc s) (lc_gaccept s) (lc_glt s) (lc_gt7 s) (lc_gjoin s) (lc_hasloop s) (lc_lgen s) (lc_lcount s) (lc_lpc s) (lc_lprev s) (lc_lown s) (lc_tailc s) (lc_tailn s) (lc_err s) (lc_reconnects s) (lc_redials s) (lc_ndials s) v.
+  LcState (lc_active s) (lc_api s) (lc_oeid s) (lc_shutdown s) (lc_rgen s) (lc_cancelled s) (lc_stopping s) (lc_sup s) (lc_st s) (lc_latch s) (lc_spc s) (lc_reid s) (lc_pdisc s) (lc_pt7 s) (lc_pups s) (lc_pbehind s) (lc_pclose s) (lc_stopreq s) (lc_gnotif s) (lc_hascur s) (lc_eid s) (lc_etd s) (lc_edone s) (lc_esock s) (lc_elis s) (lc_eup s) (lc_estop1 s) (lc_estop2 s) (lc_ahold s) (lc_gsender s) (lc_grecv s) (lc_gproc s) (lc_gaccept s) (lc_glt s) (lc_gt7 s) (lc_gjoin s) (lc_hasloop s) (lc_lgen s) (lc_lcount s) (lc_lpc s) (lc_lprev s) (lc_lown s) (lc_tailc s) (lc_tailn s) (lc_err s) (lc_reconnects s) (lc_redials s) (lc_ndials s) v.
 
 Notation "s '.[' f ':=' v ']'" := (f v s) (at level 8, left associativity, only parsing).
 
 Definition Lifecycle_init (active : bool) : Lifecycle_state :=
-  LcState active LcIdle 0 false 0 false false LcSupNone LcNC false LcSupIdle 0 0 0 0 false false false
+  LcState active LcIdle 0 false 0 false false LcSupNone LcNC false LcSupIdle 0 0 0 false 0 false false false
           false 0 false false false false false false false false
           false false false false 0 0 false
           false 0 false LcLWaitPrev 0 0 0 0 false 0 0 0 0.
@@ -290,15 +293,20 @@ Definition lc_new_epoch (s : Lifecycle_state) : Lifecycle_state :=
 
 (** connection.TCPUp: publish the socket on the current epoch, CommitConnected (CAS NC -> NS on the
     plain state word: fails once the close latch carries the closed bit; a successful commit
-    enqueues its echo event and counts it in pendingUps). *)
+    enqueues its echo event and counts it in pendingUps). [lc_pups]: a TCP-up echo is queued and not
+    yet taken; a second commit while one is still queued is outside the model's shape (flagged). *)
 Definition lc_tcpup (s : Lifecycle_state) : Lifecycle_state :=
   let s1 := s.[set_esock := true].[set_eup := true] in
   if lc_sup_alive s && lc_is_nc (lc_st s) && negb (lc_latch s)
-  then s1.[set_st := LcNS].[set_pups := S (lc_pups s)] else s1.
+  then s1.[set_err := lc_err s || lc_pups s].[set_st := LcNS].[set_pups := true] else s1.
 
-(** connection.TCPDown: inject evDisconnect (a no-op once the supervisor's run loop has returned). *)
+(** connection.TCPDown: inject evDisconnect (a no-op once the supervisor's run loop has returned).
+    The events channel is FIFO: a disconnect injected while a TCP-up echo is still queued sits BEHIND
+    that echo ([lc_pbehind]) and can only be taken after it; the ones in [lc_pdisc] are ahead of it. *)
 Definition lc_tcpdown (s : Lifecycle_state) : Lifecycle_state :=
-  if lc_sup_alive s then s.[set_pdisc := S (lc_pdisc s)] else s.
+  if lc_sup_alive s
+  then (if lc_pups s then s.[set_pbehind := S (lc_pbehind s)] else s.[set_pdisc := S (lc_pdisc s)])
+  else s.
 
 (** startConnectLoop: a loop scheduled at the current reconnectGen, waiting for the current epoch. *)
 Definition lc_spawn_loop (count : bool) (s : Lifecycle_state) : Lifecycle_state :=
@@ -363,7 +371,7 @@ Definition Lifecycle_exec (s : Lifecycle_state) (a : Lifecycle_action) : option 
       Some s1.[set_err := lc_err s1 || lc_sup_alive s || lc_gnotif s]
              .[set_cancelled := false].[set_oeid := lc_eid s1]
              .[set_sup := LcSupAlive].[set_st := LcNC].[set_latch := false].[set_spc := LcSupIdle]
-             .[set_pdisc := 0].[set_pt7 := 0].[set_pups := 0].[set_pclose := false].[set_stopreq := false].[set_gnotif := true]
+             .[set_pdisc := 0].[set_pt7 := 0].[set_pups := false].[set_pbehind := 0].[set_pclose := false].[set_stopreq := false].[set_gnotif := true]
              .[set_gsender := true].[set_stopping := false].[set_api := LcOStart m LcSP0]
     | _ => None
     end
@@ -481,20 +489,21 @@ Definition Lifecycle_exec (s : Lifecycle_state) (a : Lifecycle_action) : option 
     if lc_sup_alive s && lc_spc_idle (lc_spc s) && negb (lc_pdisc s =? 0) then
       let s1 := s.[set_pdisc := pred (lc_pdisc s)] in
       (* ignored: latched, already NotConnected, or taken while a TCP-up echo is still queued (stale) *)
-      if lc_latch s || lc_is_nc (lc_st s) || negb (lc_pups s =? 0) then Some s1
+      if lc_latch s || lc_is_nc (lc_st s) || lc_pups s then Some s1
       else Some s1.[set_st := LcNC].[set_spc := LcReact1].[set_reid := lc_eid s]
     else None
   | LcSupT7 =>
     if lc_sup_alive s && lc_spc_idle (lc_spc s) && negb (lc_pt7 s =? 0) then
       let s1 := s.[set_pt7 := pred (lc_pt7 s)] in
-      if negb (lc_latch s) && lc_is_ns (lc_st s) && (lc_pups s =? 0)
+      if negb (lc_latch s) && lc_is_ns (lc_st s) && negb (lc_pups s)
       then Some s1.[set_st := LcNC].[set_spc := LcReact1].[set_reid := lc_eid s]
       else Some s1
     else None
   | LcSupUpEcho =>
     (* the supervisor takes a TCP-up commit echo: it only reports, never stores *)
-    if lc_sup_alive s && lc_spc_idle (lc_spc s) && negb (lc_pups s =? 0)
-    then Some s.[set_pups := pred (lc_pups s)] else None
+    (* FIFO: only after every disconnect that was queued ahead of it; the ones behind become takeable *)
+    if lc_sup_alive s && lc_spc_idle (lc_spc s) && lc_pups s && (lc_pdisc s =? 0)
+    then Some s.[set_pups := false].[set_pdisc := lc_pbehind s].[set_pbehind := 0] else None
   | LcSupClose =>
     if lc_sup_alive s && lc_spc_idle (lc_spc s) && lc_pclose s then
       let s1 := s.[set_pclose := false] in
@@ -533,7 +542,10 @@ Definition Lifecycle_exec (s : Lifecycle_state) (a : Lifecycle_action) : option 
   | LcAcceptExit =>
     if lc_gaccept s && negb (lc_elis s) && negb (lc_ahold s) then Some s.[set_gaccept := false] else None
   | LcRecvExit down =>
-    if lc_grecv s then let s1 := s.[set_grecv := false] in Some (if down then lc_tcpdown s1 else s1) else None
+    (* the receive goroutine ends: reporting the loss (TCPDown), or silently — which it does only
+       when its generation's context is cancelled (teardown began) *)
+    if lc_grecv s && (down || lc_etd s)
+    then let s1 := s.[set_grecv := false] in Some (if down then lc_tcpdown s1 else s1) else None
   | LcProcExit down =>
     if lc_gproc s then let s1 := s.[set_gproc := false] in Some (if down then lc_tcpdown s1 else s1) else None
   | LcSelected lt =>
